@@ -7,7 +7,7 @@
    path-keyed caches coherent: with a symlink to a directory two paths alias one object.  All handle paths
    are ".."-free ([HOK] of Proofs/SrvPaths.v), so resolution has the closed form of Proofs/BackendWF.v. *)
 From Coq Require Import List NArith ZArith Bool Lia.
-From Verif Require Import Gen.Facts Model.Handles Model.Backend Model.Srv Proofs.BackendWF Proofs.SrvPaths.
+From Verif Require Import Gen.Facts Model.Handles Model.Backend Model.Srv Proofs.BackendWF Proofs.SrvPaths Proofs.SrvRO.
 Import ListNotations.
 Open Scope N_scope.
 
@@ -235,9 +235,19 @@ Qed.
 (* 3. two runs side by side                                                                               *)
 (* ====================================================================================================== *)
 Definition pnode (e : N * nattrs) : N * (kind * N * N * N) := (fst e, pn (snd e)).
+(* the part of the configuration that is not about caching *)
+Definition ncc (c : cfg) : N * bool * N := (tsize c, ro c, maxfile c).
+(* two server states that may differ in their caches, in the CACHE CONFIGURATION (TTLs, capacities, negative
+   caching on/off, directory cache on/off), in the call log, and in the unprojected node attributes *)
 Record sim (s t : srv) : Prop := {
   sim_fs : fs s = fs t; sim_hm : hm s = hm t; sim_nodes : map pnode (nodes s) = map pnode (nodes t);
-  sim_conf : conf s = conf t; sim_now : now s = now t }.
+  sim_conf : ncc (conf s) = ncc (conf t); sim_now : now s = now t }.
+Lemma sim_ro s t : sim s t -> ro (conf s) = ro (conf t).
+Proof. intros S. pose proof (sim_conf s t S) as H. unfold ncc in H. congruence. Qed.
+Lemma sim_maxfile s t : sim s t -> maxfile (conf s) = maxfile (conf t).
+Proof. intros S. pose proof (sim_conf s t S) as H. unfold ncc in H. congruence. Qed.
+Lemma sim_tsize s t : sim s t -> tsize (conf s) = tsize (conf t).
+Proof. intros S. pose proof (sim_conf s t S) as H. unfold ncc in H. congruence. Qed.
 Definition SIM (s t : srv) : Prop := sim s t /\ Good s /\ Good t.
 
 Lemma sim_refl s : sim s s. Proof. split; reflexivity. Qed.
@@ -477,7 +487,7 @@ Proof. intros HS ND GP E E'. unfold created_reply. lock; [lock_alloc|]; leaf. Qe
 
 Lemma handle_commit_rel s t h : SIM s t -> HREL (handle_commit s h) (handle_commit t h).
 Proof.
-  intros HS. unfold handle_commit. rewrite <- (sim_conf s t (proj1 HS)). destruct (ro (conf s)); [leaf|].
+  intros HS. unfold handle_commit. rewrite <- (sim_ro s t (proj1 HS)). destruct (ro (conf s)); [leaf|].
   lnode; [lock|]; leaf.
 Qed.
 Lemma handle_lookup_rel s t h n : SIM s t -> HREL (handle_lookup s h n) (handle_lookup t h n).
@@ -497,10 +507,23 @@ Proof.
       destruct (current_attrs _ h p) as [? ?]. destruct (current_attrs _ h p) as [? ?]. cbn [fst snd] in Rc. destruct Rc as [R1 R2].
       split; [exact R1|]. obs_cbn. rewrite R2. reflexivity.
 Qed.
+Lemma mnt_prefix_check_rel k : forall s t pre, SIM s t ->
+  SIM (fst (mnt_prefix_check s pre k)) (fst (mnt_prefix_check t pre k)) /\
+  snd (mnt_prefix_check s pre k) = snd (mnt_prefix_check t pre k).
+Proof.
+  induction k as [|k IH]; intros s t pre HS; cbn [mnt_prefix_check]; [destruct pre; cbn; auto|].
+  destruct pre as [|x pre']; [cbn; auto|]. unfold do_lstat. rewrite <- (sim_fs s t (proj1 HS)).
+  pose proof (SIM_logc s t (bc BLstat (x :: pre')) (bc BLstat (x :: pre')) HS) as HS1.
+  destruct (be_stat (fs s) (x :: pre') false) as [fi|e]; [|apply IH; exact HS1].
+  destruct (kind_eqb (fi_kind fi) KLink); [cbn; auto|apply IH; exact HS1].
+Qed.
 Lemma handle_mnt_rel s t p : SIM s t -> HREL (handle_mnt s p) (handle_mnt t p).
 Proof.
-  intros HS. unfold handle_mnt. destruct (negb (is_abs p)); [leaf|].
-  pose proof (mnt_path_gpath p) as GP. lock; [lock_alloc|]; leaf.
+  intros HS. unfold handle_mnt. destruct (negb (is_abs p)); [leaf|]. cbv zeta.
+  pose proof (mnt_path_gpath p) as GP.
+  destruct (mnt_prefix_check_rel (length (clean_comps [] (split_path p))) s t (removelast (clean_comps [] (split_path p))) HS) as [R1 R2].
+  destruct (mnt_prefix_check s _ _) as [s0 linked]. destruct (mnt_prefix_check t _ _) as [t0 linked']. cbn [fst snd] in *. subst linked'.
+  clear HS. destruct linked; [leaf|]. lock; [lock_alloc|]; leaf.
 Qed.
 Lemma handle_readlink_rel s t h : SIM s t -> HREL (handle_readlink s h) (handle_readlink t h).
 Proof.
@@ -678,7 +701,7 @@ Qed.
 
 Lemma handle_remove_rel s t h n : SIM s t -> HREL (handle_remove s h n) (handle_remove t h n).
 Proof.
-  intros HS. unfold handle_remove. rewrite <- (sim_conf s t (proj1 HS)). destruct (ro (conf s)); [leaf|].
+  intros HS. unfold handle_remove. rewrite <- (sim_ro s t (proj1 HS)). destruct (ro (conf s)); [leaf|].
   destruct (negb (validate_name n =? st_ok)) eqn:V; [leaf|]. apply vname_of_negb in V.
   lnode; [|leaf]. kindeq. destruct (negb (kind_eqb (na_kind n0) KDir)); [leaf|].
   lock; [|leaf].
@@ -700,7 +723,7 @@ Qed.
 
 Lemma handle_rmdir_rel s t h n : SIM s t -> HREL (handle_rmdir s h n) (handle_rmdir t h n).
 Proof.
-  intros HS. unfold handle_rmdir. rewrite <- (sim_conf s t (proj1 HS)). destruct (ro (conf s)); [leaf|].
+  intros HS. unfold handle_rmdir. rewrite <- (sim_ro s t (proj1 HS)). destruct (ro (conf s)); [leaf|].
   destruct (negb (validate_name n =? st_ok)) eqn:V; [leaf|]. apply vname_of_negb in V.
   lnode; [|leaf]. kindeq. destruct (negb (kind_eqb (na_kind n0) KDir)); [leaf|].
   lock; [|leaf].
@@ -761,7 +784,8 @@ Proof.
   unfold creatable in C. unfold kd. destruct (fs_get f p); [discriminate|]. auto.
 Qed.
 Lemma create_chain f p t m u g f1 q : WF f -> nolinks f -> nodd p -> be_create f p t = (f1, Ok q) ->
-  exists f2 f3, be_chmod f1 p m = (f2, Ok tt) /\ be_chown f2 p u g = (f3, Ok tt) /\ local_change f f3 p /\ kd f p = false.
+  exists f2 f3, be_chmod f1 p m = (f2, Ok tt) /\ be_chown f2 p u g = (f3, Ok tt) /\ local_change f f3 p /\ kd f p = false /\
+               exists o3, fs_get f3 p = Some o3.
 Proof.
   intros W NL ND B. destruct (be_create_spec f W NL p t ND) as [e S]. rewrite S in B.
   assert (X : local_change f f1 p /\ (exists o, fs_get f1 p = Some o) /\ kd f p = false).
@@ -779,7 +803,8 @@ Proof.
   unfold be_chmod, be_chown. eexists. eexists.
   split; [eapply be_meta_ok; [apply L1|apply L1|exact ND|exact G1]|].
   split; [eapply be_meta_ok; [apply L2|apply L2|exact ND|apply fs_get_upd_some; exact G1]|].
-  split; [|exact K]. apply local_upd; [exact L2|apply set_meta_kind].
+  split; [apply local_upd; [exact L2|apply set_meta_kind]|]. split; [exact K|].
+  eexists. apply fs_get_upd_some. apply fs_get_upd_some. exact G1.
 Qed.
 
 Lemma Good_new s f3 d n s0 : Good s -> local_change (fs s) f3 (d ++ [n]) -> kd (fs s) (d ++ [n]) = false ->
@@ -804,7 +829,7 @@ Qed.
 
 Lemma handle_mkdir_rel s t c h n sa : SIM s t -> HREL (handle_mkdir s c h n sa) (handle_mkdir t c h n sa).
 Proof.
-  intros HS. unfold handle_mkdir. cbv zeta. rewrite <- (sim_conf s t (proj1 HS)). destruct (ro (conf s)); [leaf|].
+  intros HS. unfold handle_mkdir. cbv zeta. rewrite <- (sim_ro s t (proj1 HS)). destruct (ro (conf s)); [leaf|].
   destruct (negb (validate_name n =? st_ok)) eqn:V; [leaf|]. apply vname_of_negb in V.
   destruct (negb (validate_mode _ =? st_ok)); [leaf|].
   lnode; [|leaf]. kindeq. destruct (negb (kind_eqb (na_kind n0) KDir)); [leaf|].
@@ -840,13 +865,13 @@ Lemma srv_create_rel s t d n perm uid gid : SIM s t -> gpath d -> vname n ->
   SIM (fst (srv_create s d n perm uid gid)) (fst (srv_create t d n perm uid gid)) /\
   rres (snd (srv_create s d n perm uid gid)) (snd (srv_create t d n perm uid gid)).
 Proof.
-  intros HS GD V. unfold srv_create. cbv zeta. rewrite <- (sim_conf s t (proj1 HS)).
+  intros HS GD V. unfold srv_create. cbv zeta. rewrite <- (sim_ro s t (proj1 HS)).
   destruct (ro (conf s)); [cbn; tauto|]. destruct (negb (sanitize_ok d n)); [cbn; tauto|].
   assert (ND : nodd (d ++ [n])) by nd.
   rewrite <- (sim_fs s t (proj1 HS)), <- (sim_now s t (proj1 HS)).
   pose proof (sim_fs s t (proj1 HS)) as EF. destruct HS as (S1 & G1 & G2).
   destruct (be_create (fs s) (d ++ [n]) (now s)) as [f1 [q|e]] eqn:B; cbn [fst snd].
-  - destruct (create_chain _ _ _ (N.land perm 511) uid gid _ _ (g_wf _ G1) (g_nl _ G1) ND B) as (f2 & f3 & C2 & C3 & LC & K).
+  - destruct (create_chain _ _ _ (N.land perm 511) uid gid _ _ (g_wf _ G1) (g_nl _ G1) ND B) as (f2 & f3 & C2 & C3 & LC & K & _).
     unfold lift_unit. cbn [fst snd fs logc with_fs]. rewrite C2. cbn [fst snd fs logc with_fs]. rewrite C3. cbn [fst snd fs logc with_fs].
     apply srv_lookup_rel; [|exact ND].
     split; [eapply sim_modfs; [exact S1|solve_modfs|solve_modfs]|]. split.
@@ -909,7 +934,7 @@ Qed.
 
 Lemma handle_create_rel s t c h n how sa : SIM s t -> HREL (handle_create s c h n how sa) (handle_create t c h n how sa).
 Proof.
-  intros HS. unfold handle_create. cbv zeta. rewrite <- (sim_conf s t (proj1 HS)). destruct (ro (conf s)); [leaf|].
+  intros HS. unfold handle_create. cbv zeta. rewrite <- (sim_ro s t (proj1 HS)). destruct (ro (conf s)); [leaf|].
   destruct (negb (validate_name n =? st_ok)) eqn:V; [leaf|]. apply vname_of_negb in V.
   destruct (negb (validate_mode _ =? st_ok)); [leaf|].
   lnode; [|leaf]. kindeq. destruct (negb (kind_eqb (na_kind n0) KDir)); [leaf|].
@@ -923,7 +948,7 @@ Proof.
     + lock; [lock; lock_alloc; leaf|]. apply failed_reply_rel; [assumption|nd|assumption].
     + destruct ((how =? 1) || negb (kind_eqb (fi_kind fi) KFile)); [apply failed_reply_rel; [assumption|nd|assumption]|].
       set (S0 := logc s0 (bc BLstat (p ++ [n]))) in *. set (T0 := logc s1 (bc BLstat (p ++ [n]))) in *. clearbody S0 T0.
-      rewrite <- (sim_conf S0 T0 (proj1 HSL)), <- (sim_fs S0 T0 (proj1 HSL)), <- (sim_now S0 T0 (proj1 HSL)).
+      rewrite <- (sim_maxfile S0 T0 (proj1 HSL)), <- (sim_fs S0 T0 (proj1 HSL)), <- (sim_now S0 T0 (proj1 HSL)).
       pose proof (sim_fs S0 T0 (proj1 HSL)) as EF. pose proof (sim_now S0 T0 (proj1 HSL)) as EN.
       assert (ND : nodd (p ++ [n])) by nd.
       destruct (if (how =? 0) || (how =? 1) then s_size sa else None) as [sz|]; cbn [fst snd].
@@ -951,3 +976,1474 @@ Proof.
     + apply created_reply_rel; try assumption; nd.
     + subst. apply failed_reply_rel; try assumption; nd.
 Qed.
+
+(* ---------- RENAME ---------- *)
+Lemma be_rename_err s oc nc t f' e : Good s -> nodd oc -> nodd nc -> be_rename (fs s) oc nc t = (f', Err e) -> f' = fs s.
+Proof.
+  intros G N1 N2 B. destruct (be_rename_spec (fs s) oc nc t (g_wf s G) (g_nl s G) N1 N2) as [e0 S]. rewrite S in B.
+  destruct (rename_ok (fs s) oc nc); [discriminate|]. congruence.
+Qed.
+Lemma prefix_of_prefix a q p : is_prefix q p = true -> is_prefix a p = false -> is_prefix a q = false.
+Proof.
+  intros Q A. destruct (is_prefix a q) eqn:E; [|reflexivity]. rewrite (is_prefix_trans a q p E Q) in A. discriminate.
+Qed.
+Lemma Good_subcache s s' : Good s -> modfs s (fs s) s' -> (forall e, In e (ac s') -> In e (ac s)) ->
+  (dir_on (conf s) = true -> forall e, In e (dc s') -> In e (dc s)) -> Good s'.
+Proof.
+  intros G M HA HD. eapply (Good_frame s (fs s) s' G M (g_wf s G) (g_nl s G)).
+  - intros e He. split; [apply HA; exact He|reflexivity].
+  - intros ON e He. split; [apply HD; assumption|]. intros _. split; reflexivity.
+Qed.
+Lemma Good_rename s s' oc nc f' : Good s -> nodd oc -> nodd nc -> be_rename (fs s) oc nc (now s) = (f', Ok tt) -> modfs s f' s' ->
+  (forall e, In e (ac s') -> In e (ac s) /\ is_prefix oc (ac_path e) = false /\ is_prefix nc (ac_path e) = false) ->
+  (dir_on (conf s) = true -> forall e, In e (dc s') -> In e (dc s) /\ is_prefix oc (dc_path e) = false /\ is_prefix nc (dc_path e) = false /\
+                                                 dc_path e <> parent oc /\ dc_path e <> parent nc) ->
+  Good s'.
+Proof.
+  intros G N1 N2 B M HA HD.
+  destruct (be_rename_spec (fs s) oc nc (now s) (g_wf s G) (g_nl s G) N1 N2) as [e0 S]. rewrite S in B.
+  destruct (rename_ok (fs s) oc nc) eqn:OK; [|discriminate].
+  peq oc nc.
+  - injection B as <-. eapply Good_subcache; [exact G|exact M| |].
+    + intros e He. apply HA. exact He.
+    + intros ON e He. apply (HD ON). exact He.
+  - injection B as <-. destruct (rename_ok_facts (fs s) (g_wf s G) oc nc OK E) as (NEo & NEn & _).
+    eapply (Good_frame s _ s' G M).
+    + apply WF_renamed; [exact (g_wf s G)|exact OK|exact E].
+    + apply nolinks_renamed; [exact (g_wf s G)|exact (g_nl s G)].
+    + intros e He. destruct (HA e He) as (I & P1 & P2). split; [exact I|]. intros q Q.
+      apply pk_renamed; eapply prefix_of_prefix; eassumption.
+    + intros ON e He. destruct (HD ON e He) as (I & P1 & P2 & D1 & D2). split; [exact I|]. intros _. split.
+      * apply pk_renamed; assumption.
+      * apply listing_renamed; assumption.
+Qed.
+Lemma rename_block_good s d1 n1 d2 n2 f' c : Good s -> nodd (d1 ++ [n1]) -> nodd (d2 ++ [n2]) ->
+  be_rename (fs s) (d1 ++ [n1]) (d2 ++ [n2]) (now s) = (f', Ok tt) ->
+  Good (dc_invalidate (dc_invalidate (ac_invalidate_neg_in_dir (ac_invalidate_neg_in_dir
+         (ac_invalidate (ac_invalidate (ac_invalidate (ac_invalidate
+           (dc_invalidate_tree (dc_invalidate_tree (ac_invalidate_tree (ac_invalidate_tree (logc (with_fs s f') c) (d1 ++ [n1])) (d2 ++ [n2])) (d1 ++ [n1])) (d2 ++ [n2]))
+           (d1 ++ [n1])) (d2 ++ [n2])) d1) d2) d1) d2) d1) d2).
+Proof.
+  intros G N1 N2 B. eapply (Good_rename s _ _ _ f' G N1 N2 B); [solve_modfs| |].
+  - intros e He. inv_simpl_in He. inv_in He. auto.
+  - intros ON e He. inv_in He. inv_simpl_in He. inv_in He. inv_simpl_in He. rewrite !parent_snoc. auto 10.
+Qed.
+
+Lemma handle_rename_rel s t h1 n1 h2 n2 : SIM s t -> HREL (handle_rename s h1 n1 h2 n2) (handle_rename t h1 n1 h2 n2).
+Proof.
+  intros HS. unfold handle_rename. cbv zeta. rewrite <- (sim_ro s t (proj1 HS)). destruct (ro (conf s)); [leaf|].
+  destruct (negb (validate_name n1 =? st_ok)) eqn:V1; [leaf|]. apply vname_of_negb in V1.
+  destruct (negb (validate_name n2 =? st_ok)) eqn:V2; [leaf|]. apply vname_of_negb in V2.
+  pose proof (lookup_node_rel s t h1 (proj1 HS)) as L1. pose proof (lookup_node_rel s t h2 (proj1 HS)) as L2.
+  destruct (lookup_node s h1) as [[d1 da1]|] eqn:Ls1; destruct (lookup_node t h1) as [[d1' da1']|] eqn:Lt1; try contradiction;
+    [destruct L1 as [<- L1]|leaf].
+  destruct (lookup_node s h2) as [[d2 da2]|] eqn:Ls2; destruct (lookup_node t h2) as [[d2' da2']|] eqn:Lt2; try contradiction;
+    [destruct L2 as [<- L2]|leaf].
+  pose proof (SIM_gpath _ _ _ _ _ HS Ls1) as GP1. pose proof (SIM_gpath _ _ _ _ _ HS Ls2) as GP2.
+  rewrite <- (pn_kind _ _ L1), <- (pn_kind _ _ L2).
+  destruct (negb (kind_eqb (na_kind da1) KDir) || negb (kind_eqb (na_kind da2) KDir)); [leaf|].
+  lock; [|leaf]. lock; [|leaf].
+  destruct (negb (sanitize_ok d1 n1) || negb (sanitize_ok d2 n2)); [lock; lock; leaf|].
+  assert (ND1 : nodd (d1 ++ [n1])) by nd. assert (ND2 : nodd (d2 ++ [n2])) by nd.
+  match goal with HS' : SIM ?s1 ?t1 |- _ =>
+    unfold lift_unit; cbn [fst snd]; rewrite <- (sim_fs s1 t1 (proj1 HS')), <- (sim_now s1 t1 (proj1 HS'));
+    pose proof (sim_fs s1 t1 (proj1 HS')) as EF; pose proof (sim_now s1 t1 (proj1 HS')) as EN;
+    destruct (be_rename (fs s1) (d1 ++ [n1]) (d2 ++ [n2]) (now s1)) as [f' [[]|e]] eqn:B; cbn [fst snd];
+    destruct HS' as (S1 & G1 & G2)
+  end.
+  - match goal with |- HREL (let '(_, _) := getattr_h ?s2 _ _ in _) (let '(_, _) := getattr_h ?t2 _ _ in _) => assert (HS2 : SIM s2 t2) end.
+    { split; [eapply sim_modfs; [exact S1|solve_modfs|solve_modfs]|]. split.
+      - apply rename_block_good; [exact G1|exact ND1|exact ND2|exact B].
+      - apply rename_block_good; [exact G2|exact ND1|exact ND2|rewrite <- EF, <- EN; exact B]. }
+    lock; [|leaf]. lock; leaf.
+  - match type of B with be_rename (fs ?s1) _ _ _ = _ =>
+      assert (f' = fs s1) as -> by (eapply be_rename_err; [exact G1|exact ND1|exact ND2|exact B]) end.
+    match goal with |- HREL (let '(_, _) := getattr_h (logc (with_fs ?a _) ?c) _ _ in _) (let '(_, _) := getattr_h (logc (with_fs ?b _) _) _ _ in _) =>
+      assert (HS2 : SIM (logc (with_fs a (fs a)) c) (logc (with_fs b (fs a)) c))
+        by (apply SIM_same_fs; split; [exact S1|split; assumption]) end.
+    lock; lock; leaf.
+Qed.
+
+(* ====================================================================================================== *)
+(* 6. directory listings                                                                                  *)
+(* ====================================================================================================== *)
+Definition pe (e : path * nattrs) : path * (kind * N * N * N) := (fst e, pn (snd e)).
+(* the listing AbsfsNFS.ReadDir builds from the names, as a function of the tree alone *)
+Fixpoint ref_lookall (f : fsmap) (d : path) (names : list name) : list (path * (kind * N * N * N)) :=
+  match names with
+  | [] => []
+  | n :: r =>
+    if is_dot n || is_dotdot n || negb (sanitize_ok d n) then ref_lookall f d r
+    else match pk f (d ++ [n]) with
+         | Some (k, pm, sz) => (d ++ [n], (k, pm, sz, fileid_of (d ++ [n]))) :: ref_lookall f d r
+         | None => ref_lookall f d r
+         end
+  end.
+Definition ents_ok (f : fsmap) (l : list (path * nattrs)) : Prop :=
+  Forall (fun e => gpath (fst e) /\ attr_ok f (fst e) (snd e)) l.
+
+Lemma lookup_all_spec d names : gpath d -> forall s, Good s ->
+  core s (fst (lookup_all s d names)) /\ Good (fst (lookup_all s d names)) /\
+  map pe (snd (lookup_all s d names)) = ref_lookall (fs s) d names /\ ents_ok (fs s) (snd (lookup_all s d names)).
+Proof.
+  intros GD. induction names as [|n r IH]; intros s G; cbn [lookup_all ref_lookall].
+  - split; [apply core_refl|]. split; [exact G|]. split; [reflexivity|constructor].
+  - destruct (is_dot n || is_dotdot n || negb (sanitize_ok d n)) eqn:E; [apply IH; exact G|].
+    apply orb_false_elim in E. destruct E as [_ E]. apply negb_false_iff, sanitize_ok_sane in E.
+    assert (GP : gpath (d ++ [n])) by (apply gpath_app; [exact GD|apply name_sane_gcomp; exact E]).
+    pose proof (gpath_nodd _ GP) as ND.
+    destruct (srv_lookup_spec s (d ++ [n]) G ND) as (A1 & A2 & A3).
+    destruct (srv_lookup s (d ++ [n])) as [s1 lr]. cbn [fst snd] in *.
+    destruct (IH s1 A2) as (B1 & B2 & B3 & B4). destruct (lookup_all s1 d r) as [s2 rest]. cbn [fst snd] in *.
+    pose proof A1 as (F1 & _). rewrite F1 in B3, B4.
+    destruct lr as [a|e]; cbn [fst snd]; (split; [eapply core_trans; eassumption|]); (split; [exact B2|]).
+    + cbn [lookup_res] in A3. destruct A3 as [A3 A4]. rewrite A3. cbn [map]. split.
+      * unfold pe at 1. cbn [fst snd]. unfold pn. rewrite A4, B3. reflexivity.
+      * constructor; [cbn [fst snd]; split; [exact GP|split; assumption]|exact B4].
+    + cbn [lookup_res] in A3. destruct (be_stat_err_inv (fs s) (g_wf s G) (g_nl s G) _ _ _ ND A3) as [N _].
+      unfold pk. rewrite N. cbn [option_map]. split; assumption.
+Qed.
+
+Definition rd_names (f : fsmap) (d : path) : res (list name) :=
+  match be_open f d false with
+  | Err e => Err e
+  | Ok q => match be_readdir f q with Err e => Err e | Ok ents => Ok (map fst ents) end
+  end.
+Definition readdir_res (f : fsmap) (d : path) (r : res (list (path * nattrs))) : Prop :=
+  match rd_names f d with
+  | Err e => r = Err e
+  | Ok names => exists l, r = Ok l /\ map pe l = ref_lookall f d names /\ ents_ok f l
+  end.
+Lemma rd_names_dir f d : WF f -> nolinks f -> nodd d -> kd f d = true -> rd_names f d = Ok (listing f d).
+Proof.
+  intros W NL ND K. unfold rd_names. destruct (be_open_spec f W NL d false ND) as [e S]. rewrite S.
+  pose proof K as K'. apply kd_true in K'. destruct K' as [o [G _]]. rewrite G, andb_false_r.
+  destruct (be_readdir_dir f d K) as [ents [R1 R2]]. rewrite R1, R2. reflexivity.
+Qed.
+
+Lemma srv_readdir_spec s d : Good s -> gpath d ->
+  core s (fst (srv_readdir s d)) /\ Good (fst (srv_readdir s d)) /\ readdir_res (fs s) d (snd (srv_readdir s d)).
+Proof.
+  intros G GD. pose proof (gpath_nodd d GD) as ND. unfold srv_readdir, readdir_res.
+  assert (HIT : let hit := if dir_on (conf s) then dc_get s d else (s, None) in
+                core s (fst hit) /\ Good (fst hit) /\
+                match snd hit with Some names => kd (fs s) d = true /\ names = listing (fs s) d | None => True end).
+  { destruct (dir_on (conf s)) eqn:ON; cbn zeta.
+    - destruct (dc_get_spec s d (g_coh s G) ON) as (A & B & C). split; [exact A|]. split; [eapply Good_core; eassumption|exact C].
+    - cbn. split; [apply core_refl|]. split; [exact G|exact I]. }
+  cbv zeta in HIT. destruct (if dir_on (conf s) then dc_get s d else (s, None)) as [s0 hit]. cbn [fst snd] in *.
+  destruct HIT as (C0 & G0 & HH). pose proof C0 as (F0 & _ & _ & CF0 & _).
+  destruct hit as [names|].
+  - destruct HH as [K ->]. rewrite (rd_names_dir (fs s) d (g_wf s G) (g_nl s G) ND K).
+    destruct (lookup_all_spec d (listing (fs s) d) GD s0 G0) as (A1 & A2 & A3 & A4).
+    destruct (lookup_all s0 d (listing (fs s) d)) as [s1 l]. cbn [fst snd] in *.
+    split; [eapply core_trans; eassumption|]. split; [exact A2|]. exists l. rewrite F0 in A3, A4. auto.
+  - cbn [fs logc]. unfold rd_names. rewrite F0.
+    assert (C1 : core s (logc s0 (bc BOpenR d))) by (eapply core_trans; [exact C0|repeat split]).
+    assert (G1 : Good (logc s0 (bc BOpenR d))) by (apply Good_logc; exact G0).
+    destruct (be_open (fs s) d false) as [q|e] eqn:BO; cbn [fst snd]; [|auto].
+    assert (C2 : core s (logc (logc s0 (bc BOpenR d)) (bc BReaddir d))) by (eapply core_trans; [exact C1|repeat split]).
+    assert (G2 : Good (logc (logc s0 (bc BOpenR d)) (bc BReaddir d))) by (apply Good_logc; exact G1).
+    destruct (be_readdir (fs s) q) as [ents|e] eqn:BR; cbn [fst snd]; [|auto].
+    assert (Q : q = d).
+    { destruct (be_open_spec (fs s) (g_wf s G) (g_nl s G) d false ND) as [e S]. rewrite S in BO.
+      destruct (fs_get (fs s) d); [|discriminate]. rewrite andb_false_r in BO. congruence. }
+    subst q. destruct (be_readdir_listing _ _ _ BR) as [L K].
+    set (S2 := logc (logc s0 (bc BOpenR d)) (bc BReaddir d)) in *.
+    assert (X : core s (if dir_on (conf S2) then dc_put S2 d (map fst ents) else S2) /\
+                Good (if dir_on (conf S2) then dc_put S2 d (map fst ents) else S2)).
+    { destruct (dir_on (conf S2)); [|auto]. split; [eapply core_trans; [exact C2|apply dc_put_core]|].
+      eapply Good_core; [apply dc_put_core|exact G2|]. apply dc_put_coh; [| |exact (g_coh _ G2)].
+      - unfold S2. sproj. rewrite F0. exact K.
+      - unfold S2. sproj. rewrite F0. exact L. }
+    destruct X as [C3 G3].
+    destruct (lookup_all_spec d (map fst ents) GD _ G3) as (A1 & A2 & A3 & A4).
+    destruct (lookup_all _ d (map fst ents)) as [s4 l]. cbn [fst snd] in *.
+    split; [eapply core_trans; eassumption|]. split; [exact A2|]. exists l.
+    pose proof C3 as (F3 & _). rewrite F3 in A3, A4. auto.
+Qed.
+
+Lemma refresh_all_spec l : forall s, Good s -> ents_ok (fs s) l ->
+  core s (fst (refresh_all s l)) /\ Good (fst (refresh_all s l)) /\
+  map pe (snd (refresh_all s l)) = map pe l /\ ents_ok (fs s) (snd (refresh_all s l)).
+Proof.
+  induction l as [|[p a] r IH]; intros s G EO; cbn [refresh_all].
+  - split; [apply core_refl|]. split; [exact G|]. split; [reflexivity|constructor].
+  - inversion EO as [|? ? [GP OK] EO']; subst. cbn [fst snd] in GP, OK. pose proof (gpath_nodd p GP) as ND.
+    destruct (ac_get_spec s p (g_coh s G)) as (A1 & A2 & _). destruct (ac_get s p) as [s0 x]. cbn [fst snd] in *.
+    assert (G0 : Good s0) by (eapply Good_core; eassumption). pose proof A1 as (F0 & _).
+    unfold do_lstat. cbn [fst snd]. rewrite F0.
+    destruct OK as [OK1 OK2]. unfold pk in OK1. destruct (fs_get (fs s) p) as [o|] eqn:Go; [|discriminate].
+    rewrite (be_stat_present (fs s) (g_wf s G) (g_nl s G) p o false ND Go).
+    set (a' := attrs_of_info (info_of o) (na_fileid a) (na_uid a) (na_gid a)).
+    assert (PA : pn a' = pn a).
+    { unfold a', pn. cbn. cbn in OK1. injection OK1 as <- <- <-. reflexivity. }
+    assert (OK' : attr_ok (fs s) p a').
+    { unfold attr_ok, pk. rewrite Go. split; [reflexivity|exact OK2]. }
+    set (S1 := ac_put (logc s0 (bc BLstat p)) p a').
+    assert (C1 : core s S1) by (eapply core_trans; [exact A1|repeat split]).
+    assert (G1 : Good S1).
+    { eapply Good_core; [exact C1|exact G|]. apply ac_put_coh; [sproj; rewrite F0; exact OK'|exact (g_coh _ (Good_logc s0 _ G0))]. }
+    pose proof C1 as (F1 & _).
+    destruct (IH S1 G1) as (B1 & B2 & B3 & B4); [rewrite F1; exact EO'|].
+    destruct (refresh_all S1 r) as [s2 rest]. cbn [fst snd] in *.
+    split; [eapply core_trans; eassumption|]. split; [exact B2|]. split.
+    + cbn [map]. unfold pe at 1 3. cbn [fst snd]. rewrite PA, B3. reflexivity.
+    + rewrite F1 in B4. constructor; [cbn [fst snd]; auto|exact B4].
+Qed.
+
+Lemma pair_inv {A B} (a c : A) (b d : B) : (a, b) = (c, d) -> a = c /\ b = d.
+Proof. intros H. injection H. auto. Qed.
+Definition pie (ie : N * (path * nattrs)) := (fst ie, pe (snd ie)).
+Lemma page_pe plus limit cookie : forall l l' i sent len, map pe l = map pe l' ->
+  map pie (fst (page plus limit i cookie sent len l)) = map pie (fst (page plus limit i cookie sent len l')) /\
+  snd (page plus limit i cookie sent len l) = snd (page plus limit i cookie sent len l').
+Proof.
+  induction l as [|e r IH]; intros [|e' r'] i sent len H; cbn [map] in H; try discriminate; cbn [page]; [auto|].
+  apply (cons_pair_inv (fst e) (fst e') (pn (snd e)) (pn (snd e'))) in H. destruct H as (E1 & E2 & E3).
+  destruct (i <? cookie); [apply IH; exact E3|]. rewrite <- E1.
+  match goal with |- context [if ?c then _ else _] => destruct c end; [auto|].
+  match goal with |- context [page plus limit ?i' cookie ?s' ?l' r] => specialize (IH r' i' s' l' E3) end.
+  destruct (page plus limit _ cookie _ _ r) as [rest lim]. destruct (page plus limit _ cookie _ _ r') as [rest' lim'].
+  cbn [fst snd] in *. destruct IH as [I1 I2]. split; [|exact I2]. cbn [map]. rewrite I1.
+  unfold pie at 1 3. unfold pe. cbn [fst snd]. rewrite E1, E2. reflexivity.
+Qed.
+
+Lemma alloc_all_rel : forall pg pg' s t, SIM s t -> map pie pg = map pie pg' -> (forall ie, In ie pg -> gpath (fst (snd ie))) ->
+  SIM (fst (alloc_all s pg)) (fst (alloc_all t pg')) /\ map pde (snd (alloc_all s pg)) = map pde (snd (alloc_all t pg')).
+Proof.
+  induction pg as [|[ck [p a]] r IH]; intros [|[ck' [p' a']] r'] s t HS H GP; cbn [map] in H; try discriminate; cbn [alloc_all]; [auto|].
+  apply (cons_pair_inv ck ck' (pe (p, a)) (pe (p', a'))) in H. destruct H as (-> & E2 & E3).
+  unfold pe in E2. cbn [fst snd] in E2. apply (pair_inv p p' (pn a) (pn a')) in E2. destruct E2 as [<- E2].
+  assert (G : gpath p) by (apply (GP (ck', (p, a))); left; reflexivity).
+  destruct (alloc_rel s t p a a' HS G E2) as [R1 R2].
+  destruct (alloc s p a) as [s1 fh]. destruct (alloc t p a') as [t1 fh']. cbn [fst snd] in *. subst fh'.
+  destruct (IH r' s1 t1 R1 E3 (fun ie Hi => GP ie (or_intror Hi))) as [I1 I2].
+  destruct (alloc_all s1 r) as [s2 rest]. destruct (alloc_all t1 r') as [t2 rest']. cbn [fst snd] in *.
+  split; [exact I1|]. cbn [map]. rewrite I2. unfold pde at 1 3. cbn [de_fileid de_name de_cookie de_attr de_fh].
+  unfold sf. cbn [option_map]. rewrite (pfa_pn _ _ E2), (pn_fileid _ _ E2). reflexivity.
+Qed.
+
+Definition rdres (f : fsmap) (r r' : res (list (path * nattrs))) : Prop :=
+  match r, r' with
+  | Ok l, Ok l' => map pe l = map pe l' /\ ents_ok f l /\ ents_ok f l'
+  | Err e, Err e' => e = e'
+  | _, _ => False
+  end.
+Lemma srv_readdir_rel s t d : SIM s t -> gpath d ->
+  SIM (fst (srv_readdir s d)) (fst (srv_readdir t d)) /\ fs (fst (srv_readdir s d)) = fs s /\
+  rdres (fs s) (snd (srv_readdir s d)) (snd (srv_readdir t d)).
+Proof.
+  intros (S & G1 & G2) GD.
+  destruct (srv_readdir_spec s d G1 GD) as (A1 & A2 & A3). destruct (srv_readdir_spec t d G2 GD) as (B1 & B2 & B3).
+  split; [split; [eapply sim_core; eassumption|split; assumption]|]. split; [apply A1|].
+  rewrite <- (sim_fs s t S) in B3. unfold readdir_res in *. destruct (rd_names (fs s) d) as [names|e].
+  - destruct A3 as (l & -> & L1 & L2). destruct B3 as (l' & -> & L1' & L2'). cbn. split; [congruence|auto].
+  - rewrite A3, B3. reflexivity.
+Qed.
+
+Lemma handle_readdir_rel s t h ck cnt : SIM s t -> HREL (handle_readdir s h ck cnt) (handle_readdir t h ck cnt).
+Proof.
+  intros HS. unfold handle_readdir. lnode; [|leaf]. kindeq. destruct (negb (kind_eqb (na_kind n) KDir)); [leaf|].
+  destruct (srv_readdir_rel s t p HS H) as (R1 & _ & R2).
+  destruct (srv_readdir s p) as [s1 [l|e]]; destruct (srv_readdir t p) as [t1 [l'|e']]; cbn [fst snd rdres] in *; try contradiction.
+  2:{ subst e'. split; [exact R1|reflexivity]. }
+  destruct R2 as (E & _ & _). clear HS. lock; [|leaf].
+  destruct (page_pe false cnt ck l l' 0 0 dir_header_len E) as [P1 P2].
+  destruct (page false cnt 0 ck 0 dir_header_len l) as [pg lim]. destruct (page false cnt 0 ck 0 dir_header_len l') as [pg' lim'].
+  cbn [fst snd] in P1, P2. subst lim'. split; [cbn [fst]; assumption|].
+  cbn [snd]. unfold proj. cbn [ob_rpc ob_status ob_fh ob_attrs ob_bytes ob_entries ob_eof map option_map]. unfold sf. cbn [option_map].
+  rewrite (pfa_pn _ _ R). f_equal. f_equal. rewrite !map_map.
+  revert P1. clear. revert pg'. induction pg as [|x r IH]; intros [|x' r'] P; cbn [map] in *; try discriminate; [reflexivity|].
+  apply (cons_pair_inv (fst x) (fst x') (pe (snd x)) (pe (snd x'))) in P. destruct P as (E1 & E2 & E3).
+  rewrite (IH r' E3). unfold pde. cbn [de_fileid de_name de_cookie de_attr de_fh option_map].
+  unfold pe in E2. apply (pair_inv (fst (snd x)) (fst (snd x')) (pn (snd (snd x))) (pn (snd (snd x')))) in E2. destruct E2 as [E2 E4].
+  rewrite E1, E2, (pn_fileid _ _ E4). reflexivity.
+Qed.
+
+
+Lemma handle_readdirplus_rel s t h ck mc : SIM s t -> HREL (handle_readdirplus s h ck mc) (handle_readdirplus t h ck mc).
+Proof.
+  intros HS. unfold handle_readdirplus. lnode; [|leaf]. kindeq. destruct (negb (kind_eqb (na_kind n) KDir)); [leaf|].
+  destruct (srv_readdir_rel s t p HS H) as (R1 & F1 & R2).
+  destruct (srv_readdir s p) as [s1 [l|e]]; destruct (srv_readdir t p) as [t1 [l'|e']]; cbn [fst snd rdres] in *; try contradiction.
+  2:{ subst e'. split; [exact R1|reflexivity]. }
+  destruct R2 as (E & O1 & O2). pose proof (sim_fs s t (proj1 HS)) as EF0. clear HS. destruct R1 as (S1 & G1 & G2).
+  pose proof (sim_fs s1 t1 S1) as EF1.
+  destruct (refresh_all_spec l s1 G1) as (A1 & A2 & A3 & A4); [rewrite F1; exact O1|].
+  destruct (refresh_all_spec l' t1 G2) as (B1 & B2 & B3 & B4); [rewrite <- EF1, F1; exact O2|].
+  destruct (refresh_all s1 l) as [s2 ents]. destruct (refresh_all t1 l') as [t2 ents']. cbn [fst snd] in *.
+  assert (HS2 : SIM s2 t2) by (split; [eapply sim_core; eassumption|split; assumption]).
+  assert (E2 : map pe ents = map pe ents') by congruence.
+  lock; [|leaf].
+  destruct (page_pe true mc ck ents ents' 0 0 dir_header_len E2) as [P1 P2].
+  destruct (page true mc 0 ck 0 dir_header_len ents) as [pg lim] eqn:PG. destruct (page true mc 0 ck 0 dir_header_len ents') as [pg' lim'].
+  cbn [fst snd] in P1, P2. subst lim'.
+  match goal with HS' : SIM ?a ?b |- _ => destruct (alloc_all_rel pg pg' a b HS' P1) as [Q1 Q2] end.
+  { intros ie Hi. pose proof (page_sub true mc ck ents 0 0 dir_header_len ie) as PS. rewrite PG in PS. specialize (PS Hi).
+    exact (proj1 (proj1 (Forall_forall _ _) A4 _ PS)). }
+  destruct (alloc_all _ pg) as [s4 des_]. destruct (alloc_all _ pg') as [t4 des']. cbn [fst snd] in *.
+  split; [exact Q1|]. cbn [snd]. unfold proj. cbn [ob_rpc ob_status ob_fh ob_attrs ob_bytes ob_entries ob_eof map option_map].
+  unfold sf. cbn [option_map]. rewrite (pfa_pn _ _ R), Q2. reflexivity.
+Qed.
+
+(* ====================================================================================================== *)
+(* 7. READ, the administrative actions, one request                                                       *)
+(* ====================================================================================================== *)
+Lemma handle_read_rel s t h off cnt : SIM s t -> HREL (handle_read s h off cnt) (handle_read t h off cnt).
+Proof.
+  intros HS. unfold handle_read. destruct (two64 - 1 - cnt <? off); [leaf|].
+  lnode; [|leaf]. kindeq. destruct (kind_eqb (na_kind n) KLink); [leaf|].
+  destruct (two63N <=? off); [leaf|]. cbv zeta. cbn [fs logc].
+  rewrite <- (sim_fs s t (proj1 HS)), <- (sim_tsize s t (proj1 HS)).
+  pose proof (SIM_logc s t (bc BOpenR p) (bc BOpenR p) HS) as HS1. clear HS.
+  destruct (be_open (fs s) p false) as [q|e]; [|leaf].
+  destruct (fs_get (fs s) q) as [o|]; [|leaf].
+  destruct (stat_size o <=? off); cbn [fst snd].
+  - lock; [|leaf]. split; [cbn [fst]; assumption|]. cbn [snd]. unfold proj, sf.
+    cbn [ob_rpc ob_status ob_fh ob_attrs ob_bytes ob_entries ob_eof map option_map].
+    rewrite (pfa_pn _ _ R), (pn_size _ _ R). reflexivity.
+  - destruct (be_readat (fs s) q off (N.min (N.min cnt (tsize (conf s))) (stat_size o - off))) as [data|e].
+    + match goal with HS' : SIM ?a ?b |- _ =>
+        pose proof (SIM_logc a b (bc2 BReadAt p [] off (N.min (N.min cnt (tsize (conf s))) (stat_size o - off)))
+                            (bc2 BReadAt p [] off (N.min (N.min cnt (tsize (conf s))) (stat_size o - off))) HS') as HS2; clear HS' end.
+      lock; [|leaf]. split; [cbn [fst]; assumption|]. cbn [snd]. unfold proj, sf.
+      cbn [ob_rpc ob_status ob_fh ob_attrs ob_bytes ob_entries ob_eof map option_map].
+      rewrite (pfa_pn _ _ R), (pn_size _ _ R). reflexivity.
+    + split; [cbn [fst]; apply SIM_logc; assumption|reflexivity].
+Qed.
+
+Lemma garbage_reply_rel s t r : sim s t -> garbage_reply s r = garbage_reply t r.
+Proof. intros S. unfold garbage_reply. rewrite (sim_ro s t S). reflexivity. Qed.
+Lemma Good_with_conf s c' : Good s -> dir_on c' = dir_on (conf s) -> Good (with_conf s c').
+Proof.
+  intros [W NL H [CA CD]] E. split; sproj; try assumption. split; sproj; [exact CA|]. rewrite E. exact CD.
+Qed.
+Lemma SIM_with_conf s t c1 c2 : SIM s t -> dir_on c1 = dir_on (conf s) -> dir_on c2 = dir_on (conf t) -> ncc c1 = ncc c2 ->
+  SIM (with_conf s c1) (with_conf t c2).
+Proof.
+  intros (S & G1 & G2) E1 E2 E. split; [|split; apply Good_with_conf; assumption].
+  destruct S as [C1 C2 C3 C4 C5]. split; sproj; assumption.
+Qed.
+
+(* the requests covered by the transparency theorem: everything except SYMLINK (it would create a link: the side
+   condition), SETATTR and WRITE (they are the data/attribute procedures of other properties; SETATTR moreover
+   compares the uid/gid held in the node, which a cache hit may legitimately have filled differently) *)
+Definition c02_req (r : req) : bool :=
+  match r with
+  | RSymlink _ _ _ _ | RSetattr _ _ _ | RWrite _ _ _ _ _ => false
+  | _ => true
+  end.
+
+Theorem step_rel s t c r : SIM s t -> c02_req r = true -> HREL (step s c r) (step t c r).
+Proof.
+  intros HS0 OKR. unfold step. pose proof (SIM_clear s t HS0) as HS. clear HS0.
+  rewrite <- (garbage_reply_rel (clear_log s) (clear_log t) r (proj1 HS)).
+  destruct (garbage_reply (clear_log s) r) as [o|]; [split; [exact HS|reflexivity]|].
+  destruct r; try discriminate OKR; try (split; [exact HS|reflexivity]).
+  - apply handle_getattr_rel; exact HS.
+  - apply handle_lookup_rel; exact HS.
+  - apply handle_access_rel; exact HS.
+  - apply handle_readlink_rel; exact HS.
+  - apply handle_read_rel; exact HS.
+  - apply handle_create_rel; exact HS.
+  - apply handle_mkdir_rel; exact HS.
+  - apply handle_remove_rel; exact HS.
+  - apply handle_rmdir_rel; exact HS.
+  - apply handle_rename_rel; exact HS.
+  - apply handle_readdir_rel; exact HS.
+  - apply handle_readdirplus_rel; exact HS.
+  - apply handle_fsx_rel; exact HS.
+  - apply handle_fsx_rel; exact HS.
+  - apply handle_fsx_rel; exact HS.
+  - apply handle_commit_rel; exact HS.
+  - apply handle_mnt_rel; exact HS.
+  - split; [|reflexivity]. cbn [fst]. apply SIM_with_conf; [exact HS|reflexivity|reflexivity|].
+    pose proof (sim_tsize _ _ (proj1 HS)) as E1. pose proof (sim_ro _ _ (proj1 HS)) as E2.
+    pose proof (sim_maxfile _ _ (proj1 HS)) as E3. unfold ncc. cbn in *. congruence.
+  - split; [|reflexivity]. cbn [fst]. apply SIM_with_conf; [exact HS|reflexivity|reflexivity|].
+    pose proof (sim_tsize _ _ (proj1 HS)) as E1. pose proof (sim_ro _ _ (proj1 HS)) as E2.
+    pose proof (sim_maxfile _ _ (proj1 HS)) as E3. unfold ncc. cbn in *. congruence.
+  - split; [|reflexivity]. cbn [fst]. apply SIM_with_conf; [exact HS|reflexivity|reflexivity|].
+    pose proof (sim_tsize _ _ (proj1 HS)) as E1. pose proof (sim_ro _ _ (proj1 HS)) as E2.
+    pose proof (sim_maxfile _ _ (proj1 HS)) as E3. unfold ncc. cbn in *. congruence.
+Qed.
+
+(* ====================================================================================================== *)
+(* 8. histories: cache transparency                                                                       *)
+(* ====================================================================================================== *)
+(* the cache-free reference: the same server with its caches emptied before every request *)
+Definition strip (s : srv) : srv := with_dc (with_ac s []) [].
+Fixpoint hrun_ref (t : srv) (l : list hstep) : list (srv * obs) :=
+  match l with [] => [] | x :: r => let so := hrun1 (strip t) x in so :: hrun_ref (fst so) r end.
+
+Lemma Good_init f c mx t : WF f -> nolinks f -> Good (srv_init_fs f c mx t).
+Proof.
+  intros W NL. split; cbn; [exact W|exact NL|apply HOK_init|]. split; [constructor|intros _; constructor].
+Qed.
+Lemma Good_strip s t : Good s -> sim s t -> Good (strip t).
+Proof.
+  intros [W NL H _] [C1 C2 C3 C4 C5]. split; unfold strip; sproj.
+  - rewrite <- C1. exact W.
+  - rewrite <- C1. exact NL.
+  - unfold HOK in *. sproj. rewrite <- C2. exact H.
+  - split; sproj; [constructor|intros _; constructor].
+Qed.
+Lemma sim_strip s t : sim s t -> sim s (strip t).
+Proof. intros [C1 C2 C3 C4 C5]. split; unfold strip; sproj; assumption. Qed.
+Lemma SIM_with_now s t a : SIM s t -> SIM (with_now s (now s + a)) (with_now t (now t + a)).
+Proof.
+  intros ([C1 C2 C3 C4 C5] & G1 & G2). split; [split; sproj; congruence|].
+  split; [destruct G1 as [W NL H C]|destruct G2 as [W NL H C]]; split; assumption.
+Qed.
+Lemma hrun1_rel s t x : SIM s t -> c02_req (hs_req x) = true -> HREL (hrun1 s x) (hrun1 t x).
+Proof. intros HS OK. unfold hrun1. apply step_rel; [apply SIM_with_now; exact HS|exact OK]. Qed.
+
+Definition c02_hist (l : list hstep) : Prop := Forall (fun x => c02_req (hs_req x) = true) l.
+(* what is compared after every step: the projected reply and the whole backend tree *)
+Definition same_step (a b : srv * obs) : Prop := proj (snd a) = proj (snd b) /\ fs (fst a) = fs (fst b).
+
+(* one request: cached server s against the cache-free reference t *)
+Theorem transparent_step s t c r : Good s -> sim s t -> c02_req r = true ->
+  proj (snd (step s c r)) = proj (snd (step (strip t) c r)) /\
+  sim (fst (step s c r)) (fst (step (strip t) c r)) /\ Good (fst (step s c r)).
+Proof.
+  intros G S OK. assert (HS : SIM s (strip t)) by (split; [apply sim_strip; exact S|split; [exact G|eapply Good_strip; eassumption]]).
+  destruct (step_rel s (strip t) c r HS OK) as [(A & B & _) C]. auto.
+Qed.
+(* histories of any length, arbitrary clock advances, any cache configuration *)
+Theorem transparent_hist : forall l s t, Good s -> sim s t -> c02_hist l -> Forall2 same_step (hrun s l) (hrun_ref t l).
+Proof.
+  induction l as [|x r IH]; intros s t G S HL; cbn [hrun hrun_ref]; [constructor|].
+  inversion HL as [|? ? OK HL']; subst.
+  assert (HS : SIM s (strip t)) by (split; [apply sim_strip; exact S|split; [exact G|eapply Good_strip; eassumption]]).
+  destruct (hrun1_rel s (strip t) x HS OK) as [(A & B & _) C]. constructor.
+  - split; [exact C|exact (sim_fs _ _ A)].
+  - apply IH; assumption.
+Qed.
+(* the symmetric form: two servers whose caches AND cache configurations differ arbitrarily *)
+Theorem config_independent : forall l s t, SIM s t -> c02_hist l -> Forall2 same_step (hrun s l) (hrun t l).
+Proof.
+  induction l as [|x r IH]; intros s t HS HL; cbn [hrun]; [constructor|].
+  inversion HL as [|? ? OK HL']; subst.
+  destruct (hrun1_rel s t x HS OK) as [A C]. constructor.
+  - split; [exact C|exact (sim_fs _ _ (proj1 A))].
+  - apply IH; assumption.
+Qed.
+(* the invariant along a history *)
+Theorem Good_hist : forall l s, Good s -> c02_hist l -> Forall (fun so => Good (fst so)) (hrun s l).
+Proof.
+  induction l as [|x r IH]; intros s G HL; cbn [hrun]; [constructor|].
+  inversion HL as [|? ? OK HL']; subst.
+  assert (HS : SIM s s) by (split; [apply sim_refl|split; exact G]).
+  destruct (hrun1_rel s s x HS OK) as [(_ & B & _) _]. constructor; [exact B|apply IH; assumption].
+Qed.
+Theorem Good_step s c r : Good s -> c02_req r = true -> Good (fst (step s c r)).
+Proof.
+  intros G OK. assert (HS : SIM s s) by (split; [apply sim_refl|split; exact G]).
+  destruct (step_rel s s c r HS OK) as [(_ & B & _) _]. exact B.
+Qed.
+
+(* ====================================================================================================== *)
+(* 9. one run against the tree: outcomes of the namespace procedures                                      *)
+(* ====================================================================================================== *)
+Lemma pk_some_get f p x : pk f p = Some x -> exists o, fs_get f p = Some o /\ pko o = x.
+Proof. unfold pk. destruct (fs_get f p) as [o|]; cbn; [intros [= <-]; exists o; auto|discriminate]. Qed.
+Lemma get_pk f f' p o : fs_get f p = Some o -> pk f' p = pk f p -> exists o', fs_get f' p = Some o' /\ pko o' = pko o.
+Proof. intros G E. apply pk_some_get. rewrite E. unfold pk. rewrite G. reflexivity. Qed.
+
+Lemma getattr_h_ok s h p o : Good s -> nodd p -> fs_get (fs s) p = Some o ->
+  exists s1 a, getattr_h s h p = (s1, Ok a) /\ core s s1 /\ Good s1 /\ pn a = (o_kind o, o_perm o, stat_size o, fileid_of p).
+Proof.
+  intros G ND Go. destruct (getattr_h_spec s h p G ND) as (A & B & _). pose proof (getattr_h_res s h p G ND) as C.
+  destruct (getattr_h s h p) as [s1 [a|e]]; cbn [fst snd getattr_res] in *.
+  - destruct C as [o' [C1 C2]]. rewrite Go in C1. injection C1 as <-. exists s1, a. auto.
+  - rewrite (be_stat_present (fs s) (g_wf s G) (g_nl s G) p o false ND Go) in C. discriminate.
+Qed.
+Lemma getattr_h_out s h p : Good s -> nodd p -> core s (fst (getattr_h s h p)) /\ Good (fst (getattr_h s h p)).
+Proof. intros G ND. destruct (getattr_h_spec s h p G ND) as (A & B & _). auto. Qed.
+Lemma srv_lookup_ok s p o : Good s -> nodd p -> fs_get (fs s) p = Some o ->
+  exists s1 a, srv_lookup s p = (s1, Ok a) /\ core s s1 /\ Good s1 /\ attr_ok (fs s) p a.
+Proof.
+  intros G ND Go. destruct (srv_lookup_spec s p G ND) as (A & B & C).
+  destruct (srv_lookup s p) as [s1 [a|e]]; cbn [fst snd lookup_res] in *.
+  - exists s1, a. auto.
+  - rewrite (be_stat_present (fs s) (g_wf s G) (g_nl s G) p o false ND Go) in C. discriminate.
+Qed.
+Lemma srv_lookup_absent s p : Good s -> nodd p -> fs_get (fs s) p = None ->
+  exists s1 e, srv_lookup s p = (s1, Err e) /\ core s s1 /\ Good s1 /\ be_stat (fs s) p false = Err e.
+Proof.
+  intros G ND Go. destruct (srv_lookup_spec s p G ND) as (A & B & C).
+  destruct (srv_lookup s p) as [s1 [a|e]]; cbn [fst snd lookup_res] in *.
+  - destruct C as [C _]. unfold pk in C. rewrite Go in C. discriminate.
+  - exists s1, e. auto.
+Qed.
+Lemma failed_reply_out s h d st_ a : Good s -> nodd d ->
+  core s (fst (failed_reply s h d st_ a)) /\ Good (fst (failed_reply s h d st_ a)) /\ ob_status (snd (failed_reply s h d st_ a)) = st_.
+Proof.
+  intros G ND. unfold failed_reply. destruct (getattr_h_out s h d G ND) as [A B].
+  destruct (getattr_h s h d) as [s1 r]. cbn [fst snd] in *. auto.
+Qed.
+Lemma created_reply_ok s h d p a dpre o : Good s -> nodd d -> gpath p -> fs_get (fs s) d = Some o ->
+  fs (fst (created_reply s h d p a dpre)) = fs s /\ Good (fst (created_reply s h d p a dpre)) /\
+  ob_status (snd (created_reply s h d p a dpre)) = 0 /\
+  exists rest, ob_attrs (snd (created_reply s h d p a dpre)) = sf a :: rest.
+Proof.
+  intros G ND GP Go. unfold created_reply. destruct (getattr_h_ok s h d o G ND Go) as (s1 & dp & E & C1 & G1 & _). rewrite E.
+  pose proof (Good_alloc s1 p a G1 GP) as G2. destruct (alloc_parts s1 p a) as (F & _).
+  destruct (alloc s1 p a) as [s2 fh]. cbn [fst snd] in *. split; [rewrite F; apply C1|]. split; [exact G2|]. split; [reflexivity|].
+  eexists. reflexivity.
+Qed.
+Lemma vname_negb n : vname n -> negb (validate_name n =? st_ok) = false.
+Proof. intros V. unfold vname in V. rewrite V. reflexivity. Qed.
+
+Lemma mkdir_present f p mode t u g f1 f2 : WF f -> nolinks f -> nodd p ->
+  be_mkdir f p mode t = (f1, Ok tt) -> be_chown f1 p u g = (f2, Ok tt) -> exists o, fs_get f2 p = Some o /\ o_kind o = KDir.
+Proof.
+  intros W NL ND B C. destruct (be_mkdir_spec f W NL p mode t ND) as [e S]. rewrite S in B.
+  destruct (creatable f p) eqn:CR; [|discriminate]. injection B as <-.
+  pose proof (creatable_nonroot f W p CR) as NE.
+  assert (L1 : local_change f (fs_add f p (mk_dir (N.land mode 511) t) t) p) by (apply local_add; auto; discriminate).
+  unfold be_chown in C. erewrite be_meta_ok in C; [| apply L1 | apply L1 | exact ND | apply fs_get_add_same; exact NE].
+  apply (f_equal fst) in C. cbn [fst] in C. subst f2.
+  eexists. split; [apply fs_get_upd_some; apply fs_get_add_same; exact NE|reflexivity].
+Qed.
+
+Section MkdirFwd.
+Variables (s : srv) (c : cred) (h : N) (n : name) (sa : sattr) (d : path) (da : nattrs) (o : obj).
+Hypothesis G : Good s.
+Hypothesis RO : ro (conf s) = false.
+Hypothesis V : vname n.
+Let mode := match s_mode sa with Some m => m | None => 493 end.
+Hypothesis VM : validate_mode mode = st_ok.
+Hypothesis L : lookup_node s h = Some (d, da).
+Hypothesis K : na_kind da = KDir.
+Hypothesis Go : fs_get (fs s) d = Some o.
+Let p := d ++ [n].
+Let B := be_mkdir (fs s) p mode (now s).
+Let so := handle_mkdir s c h n sa.
+
+Lemma handle_mkdir_fwd :
+  Good (fst so) /\
+  match snd B with
+  | Ok _ => exists u g a rest, ob_status (snd so) = 0 /\ fs (fst so) = fst (be_chown (fst B) p u g) /\
+            ob_attrs (snd so) = sf a :: rest /\ attr_ok (fs (fst so)) p a
+  | Err e => ob_status (snd so) = map_error e /\ fs (fst so) = fs s
+  end.
+Proof.
+  assert (GD : gpath d) by (apply lookup_node_get in L; exact (g_hok s G h d L)).
+  assert (GP : gpath p) by (apply gpath_app; [exact GD|apply vname_gcomp; exact V]).
+  pose proof (gpath_nodd d GD) as NDd. pose proof (gpath_nodd p GP) as NDp.
+  unfold so, handle_mkdir. cbv zeta. rewrite RO, (vname_negb n V). fold mode. rewrite VM. cbn [N.eqb negb]. 
+  change (negb (st_ok =? st_ok)) with false. cbv iota. rewrite L, K. cbn [kind_eqb negb].
+  destruct (getattr_h_ok s h d o G NDd Go) as (s1 & dpre & E & C1 & G1 & _). rewrite E.
+  pose proof C1 as (F1 & _ & _ & _ & N1). unfold lift_unit. cbn [fst snd fs logc with_fs]. rewrite F1, N1. fold p. fold B.
+  destruct B as [f1 [[]|e]] eqn:EB; cbn [fst snd fs logc with_fs].
+  - match goal with |- context [be_chown f1 p ?u ?g] => set (uu := u); set (gg := g) end.
+    destruct (mkdir_chain _ _ _ _ uu gg _ (g_wf _ G) (g_nl _ G) NDp EB) as [f2 (C & LC & KP & _)].
+    destruct (mkdir_present _ _ _ _ uu gg _ _ (g_wf _ G) (g_nl _ G) NDp EB C) as [o2 [P2 _]]. rewrite C. cbn [fst].
+    match goal with |- context [srv_lookup ?s3 p] => assert (G3 : Good s3 /\ fs s3 = f2) end.
+    { split; [|unfold invalidate_for_new; inv_simpl; reflexivity].
+      eapply Good_new; [exact G1|rewrite F1; exact LC|rewrite F1; exact KP|solve_modfs|reflexivity|reflexivity]. }
+    destruct G3 as [G3 F3].
+    match goal with |- context [srv_lookup ?s3 p] =>
+      destruct (srv_lookup_ok s3 p o2 G3 NDp) as (s4 & a & E4 & C4 & G4 & OK4); [rewrite F3; exact P2|]; rewrite E4 end.
+    pose proof C4 as (F4 & _).
+    destruct LC as (_ & _ & HP & _).
+    destruct (get_pk (fs s) f2 d o Go) as [o' [Go' _]]; [apply HP; unfold p; apply not_eq_sym, snoc_neq|].
+    destruct (created_reply_ok s4 h d p a dpre o' G4 NDd GP) as (Q1 & Q2 & Q3 & rest & Q4); [rewrite F4, F3; exact Go'|].
+    split; [exact Q2|]. exists uu, gg, a, rest. split; [exact Q3|]. split; [rewrite Q1, F4, F3, C; reflexivity|]. split; [exact Q4|].
+    rewrite Q1, F4. exact OK4.
+  - assert (f1 = fs s) as ->.
+    { unfold B in EB. destruct (be_mkdir_spec (fs s) (g_wf s G) (g_nl s G) p mode (now s) NDp) as [e0 S]. rewrite S in EB.
+      destruct (creatable (fs s) p); [discriminate|]. congruence. }
+    match goal with |- context [failed_reply ?s2 h d ?st_ dpre] =>
+      assert (G2 : Good s2) by (rewrite <- F1; apply Good_with_fs_same; exact G1);
+      destruct (failed_reply_out s2 h d st_ dpre G2 NDd) as (Q1 & Q2 & Q3) end.
+    split; [exact Q2|]. split; [exact Q3|]. destruct Q1 as (Q1 & _). rewrite Q1. reflexivity.
+Qed.
+End MkdirFwd.
+
+Section DirOpFwd.
+Variables (s : srv) (h : N) (n : name) (d : path) (da : nattrs).
+Hypothesis G : Good s.
+Hypothesis V : vname n.
+Hypothesis L : lookup_node s h = Some (d, da).
+Hypothesis K : na_kind da = KDir.
+Let p := d ++ [n].
+
+Lemma dirop_paths : gpath d /\ gpath p /\ nodd d /\ nodd p.
+Proof.
+  assert (GD : gpath d) by (apply lookup_node_get in L; exact (g_hok s G h d L)).
+  assert (GP : gpath p) by (apply gpath_app; [exact GD|apply vname_gcomp; exact V]).
+  repeat split; auto using gpath_nodd.
+Qed.
+
+(* LOOKUP *)
+Lemma handle_lookup_fwd : let so := handle_lookup s h n in
+  Good (fst so) /\ fs (fst so) = fs s /\
+  match fs_get (fs s) p with
+  | Some _ => ob_status (snd so) = 0 /\ exists a rest, ob_attrs (snd so) = sf a :: rest /\ attr_ok (fs s) p a
+  | None => exists e, be_stat (fs s) p false = Err e /\ ob_status (snd so) = map_error e
+  end.
+Proof.
+  destruct dirop_paths as (GD & GP & NDd & NDp). cbv zeta. unfold handle_lookup. rewrite (vname_negb n V), L, K. cbn [kind_eqb negb]. fold p.
+  assert (CA : forall s1, Good s1 -> fs s1 = fs s -> Good (fst (current_attrs s1 h d)) /\ fs (fst (current_attrs s1 h d)) = fs s).
+  { intros s1 G1 F1. unfold current_attrs. destruct (getattr_h_out s1 h d G1 NDd) as [[A _] B].
+    destruct (getattr_h s1 h d) as [s2 r]. cbn [fst] in *. split; [exact B|congruence]. }
+  destruct (fs_get (fs s) p) as [x|] eqn:Gp.
+  - destruct (srv_lookup_ok s p x G NDp Gp) as (s1 & a & E & C1 & G1 & OK). rewrite E.
+    pose proof (Good_alloc s1 p a G1 GP) as G2. destruct (alloc_parts s1 p a) as (F2 & _).
+    destruct (alloc s1 p a) as [s2 fh]. cbn [fst] in *.
+    destruct (CA s2 G2) as [G3 F3]; [rewrite F2; apply C1|].
+    destruct (current_attrs s2 h d) as [s3 da']. cbn [fst snd] in *.
+    split; [exact G3|]. split; [exact F3|]. split; [reflexivity|]. exists a. eexists. split; [reflexivity|exact OK].
+  - destruct (srv_lookup_absent s p G NDp Gp) as (s1 & e & E & C1 & G1 & BS). rewrite E.
+    destruct (CA s1 G1) as [G3 F3]; [apply C1|].
+    destruct (current_attrs s1 h d) as [s3 da']. cbn [fst snd] in *.
+    split; [exact G3|]. split; [exact F3|]. exists e. split; [exact BS|reflexivity].
+Qed.
+
+Variable o : obj.
+Hypothesis RO : ro (conf s) = false.
+Hypothesis Go : fs_get (fs s) d = Some o.
+Hypothesis SAN : sanitize_ok d n = true.
+
+(* REMOVE *)
+Lemma handle_remove_fwd : let so := handle_remove s h n in let B := be_remove (fs s) p (now s) in
+  Good (fst so) /\
+  match snd B with
+  | Ok _ => ob_status (snd so) = 0 /\ fs (fst so) = fst B
+  | Err e => ob_status (snd so) = map_error e /\ fs (fst so) = fs s
+  end.
+Proof.
+  destruct dirop_paths as (GD & GP & NDd & NDp). cbv zeta. unfold handle_remove.
+  rewrite RO, (vname_negb n V), L, K. cbn [kind_eqb negb].
+  destruct (getattr_h_ok s h d o G NDd Go) as (s1 & dpre & E & C1 & G1 & _). rewrite E. rewrite SAN. cbn [negb].
+  pose proof C1 as (F1 & _ & _ & _ & N1). unfold lift_unit. cbn [fst snd]. rewrite F1, N1. fold p.
+  destruct (be_remove (fs s) p (now s)) as [f1 [[]|e]] eqn:EB; cbn [fst snd].
+  - match goal with |- context [getattr_h ?s2 h d] => assert (G2 : Good s2 /\ fs s2 = f1) end.
+    { split; [|inv_simpl; reflexivity]. apply remove_block_good; [exact G1|exact NDp|rewrite F1, N1; exact EB]. }
+    destruct G2 as [G2 F2].
+    destruct (be_remove_spec (fs s) (g_wf s G) (g_nl s G) p (now s) NDp) as [e0 S]. rewrite S in EB.
+    destruct (removable (fs s) p) eqn:R; [|discriminate]. apply (f_equal fst) in EB. cbn [fst] in EB.
+    destruct (removable_spec (fs s) (g_wf s G) p R) as (NE & _ & _).
+    destruct (get_pk (fs s) f1 d o Go) as [o' [Go' _]]; [rewrite <- EB; apply pk_del; [exact NE|unfold p; apply not_eq_sym, snoc_neq]|].
+    match goal with |- context [getattr_h ?s2 h d] =>
+      destruct (getattr_h_ok s2 h d o' G2 NDd) as (s3 & dp & E3 & C3 & G3 & _); [rewrite F2; exact Go'|]; rewrite E3 end.
+    cbn [fst snd]. split; [exact G3|]. split; [reflexivity|]. destruct C3 as (C3 & _). congruence.
+  - assert (f1 = fs s) as -> by (eapply be_remove_err; [exact G|exact NDp|exact EB]).
+    match goal with |- context [failed_reply ?s2 h d ?st_ dpre] =>
+      assert (G2 : Good s2) by (rewrite <- F1; apply Good_with_fs_same; exact G1);
+      destruct (failed_reply_out s2 h d st_ dpre G2 NDd) as (Q1 & Q2 & Q3) end.
+    split; [exact Q2|]. split; [exact Q3|]. destruct Q1 as (Q1 & _). rewrite Q1. reflexivity.
+Qed.
+
+(* RMDIR *)
+Lemma handle_rmdir_fwd : let so := handle_rmdir s h n in let B := be_remove (fs s) p (now s) in
+  Good (fst so) /\
+  match fs_get (fs s) p with
+  | None => ob_status (snd so) = NFSERR_NOENT /\ fs (fst so) = fs s
+  | Some x =>
+    if negb (kind_eqb (o_kind x) KDir) then ob_status (snd so) = NFSERR_NOTDIR /\ fs (fst so) = fs s
+    else match snd B with
+         | Ok _ => ob_status (snd so) = 0 /\ fs (fst so) = fst B
+         | Err e => ob_status (snd so) <> 0 /\ fs (fst so) = fs s
+         end
+  end.
+Proof.
+  destruct dirop_paths as (GD & GP & NDd & NDp). cbv zeta. unfold handle_rmdir.
+  rewrite RO, (vname_negb n V), L, K. cbn [kind_eqb negb].
+  destruct (getattr_h_ok s h d o G NDd Go) as (s1 & dpre & E & C1 & G1 & _). rewrite E.
+  pose proof C1 as (F1 & _ & _ & _ & N1). unfold do_stat. cbn [fst snd]. rewrite F1. fold p.
+  destruct (fs_get (fs s) p) as [x|] eqn:Gp.
+  2:{ destruct (be_stat_absent (fs s) (g_wf s G) (g_nl s G) p true NDp Gp) as [e [BS _]]. rewrite BS. cbn [fst snd].
+      split; [apply Good_logc; exact G1|]. split; [reflexivity|exact F1]. }
+  rewrite (be_stat_present (fs s) (g_wf s G) (g_nl s G) p x true NDp Gp). cbn [info_of fi_kind].
+  destruct (negb (kind_eqb (o_kind x) KDir)); cbn [fst snd].
+  { split; [apply Good_logc; exact G1|]. split; [reflexivity|exact F1]. }
+  unfold lift_unit. cbn [fst snd fs now logc]. rewrite F1, N1.
+  destruct (be_remove (fs s) p (now s)) as [f1 [[]|e]] eqn:EB; cbn [fst snd].
+  - match goal with |- context [getattr_h ?s2 h d] => assert (G2 : Good s2 /\ fs s2 = f1) end.
+    { split; [|inv_simpl; reflexivity]. apply rmdir_block_good; [apply Good_logc; exact G1|exact NDp|].
+      cbn [fs now logc]. rewrite F1, N1; exact EB. }
+    destruct G2 as [G2 F2].
+    destruct (be_remove_spec (fs s) (g_wf s G) (g_nl s G) p (now s) NDp) as [e0 S]. rewrite S in EB.
+    destruct (removable (fs s) p) eqn:R; [|discriminate]. apply (f_equal fst) in EB. cbn [fst] in EB.
+    destruct (removable_spec (fs s) (g_wf s G) p R) as (NE & _ & _).
+    destruct (get_pk (fs s) f1 d o Go) as [o' [Go' _]]; [rewrite <- EB; apply pk_del; [exact NE|unfold p; apply not_eq_sym, snoc_neq]|].
+    match goal with |- context [getattr_h ?s2 h d] =>
+      destruct (getattr_h_ok s2 h d o' G2 NDd) as (s3 & dp & E3 & C3 & G3 & _); [rewrite F2; exact Go'|]; rewrite E3 end.
+    cbn [fst snd]. split; [exact G3|]. split; [reflexivity|]. destruct C3 as (C3 & _). congruence.
+  - assert (f1 = fs s) as -> by (eapply be_remove_err; [exact G|exact NDp|exact EB]).
+    match goal with |- context [failed_reply ?s2 h d ?st_ dpre] =>
+      assert (G2 : Good s2) by (rewrite <- F1; apply (Good_with_fs_same (logc s1 _)); apply Good_logc; exact G1);
+      destruct (failed_reply_out s2 h d st_ dpre G2 NDd) as (Q1 & Q2 & Q3) end.
+    split; [exact Q2|]. split; [|destruct Q1 as (Q1 & _); rewrite Q1; reflexivity].
+    rewrite Q3. destruct e; try (vm_compute; discriminate).
+Qed.
+End DirOpFwd.
+
+(* CREATE *)
+Lemma srv_create_fwd s d n perm uid gid : Good s -> ro (conf s) = false -> gpath d -> vname n -> sanitize_ok d n = true ->
+  let p := d ++ [n] in let B := be_create (fs s) p (now s) in let r := srv_create s d n perm uid gid in
+  Good (fst r) /\
+  match snd B with
+  | Err e => snd r = Err e /\ fs (fst r) = fs s
+  | Ok _ => exists a, snd r = Ok a /\ attr_ok (fs (fst r)) p a /\
+            fs (fst r) = fst (be_chown (fst (be_chmod (fst B) p (N.land perm 511))) p uid gid)
+  end.
+Proof.
+  intros G RO GD V SAN. cbv zeta. unfold srv_create. rewrite RO, SAN. cbn [negb]. cbv zeta.
+  assert (GP : gpath (d ++ [n])) by (apply gpath_app; [exact GD|apply vname_gcomp; exact V]).
+  pose proof (gpath_nodd _ GP) as ND.
+  destruct (be_create (fs s) (d ++ [n]) (now s)) as [f1 [q|e]] eqn:B; cbn [fst snd].
+  - destruct (create_chain _ _ _ (N.land perm 511) uid gid _ _ (g_wf _ G) (g_nl _ G) ND B) as (f2 & f3 & C2 & C3 & LC & K & [o3 P3]).
+    unfold lift_unit. cbn [fst snd fs logc with_fs]. rewrite C2. cbn [fst snd fs logc with_fs]. rewrite C3. cbn [fst snd fs logc with_fs].
+    match goal with |- context [srv_lookup ?s3 _] => assert (G3 : Good s3 /\ fs s3 = f3) end.
+    { split; [|unfold invalidate_for_new; inv_simpl; reflexivity].
+      eapply Good_new; [exact G|exact LC|exact K|solve_modfs|reflexivity|reflexivity]. }
+    destruct G3 as [G3 F3].
+    match goal with |- context [srv_lookup ?s3 ?pp] =>
+      destruct (srv_lookup_ok s3 pp o3 G3 ND) as (s4 & a & E4 & C4 & G4 & OK4); [rewrite F3; exact P3|]; rewrite E4 end.
+    cbn [fst snd]. split; [exact G4|]. exists a. destruct C4 as (F4 & _). split; [reflexivity|]. split; [rewrite F4; exact OK4|congruence].
+  - assert (f1 = fs s) as -> by (eapply be_create_err; [exact G|exact ND|exact B]).
+    split; [apply Good_with_fs_same; exact G|]. split; reflexivity.
+Qed.
+
+Section CreateFwd.
+Variables (s : srv) (c : cred) (h : N) (n : name) (how : N) (sa : sattr) (d : path) (da : nattrs) (o : obj).
+Hypothesis G : Good s.
+Hypothesis RO : ro (conf s) = false.
+Hypothesis V : vname n.
+Let with_sattr := (how =? 0) || (how =? 1).
+Let mode := if with_sattr then match s_mode sa with Some m => m | None => 420 end else 420.
+Let uid := if with_sattr then match s_uid sa with Some u => if c_uid c =? 0 then u else c_uid c | None => c_uid c end else c_uid c.
+Let gid := if with_sattr then match s_gid sa with Some g => if c_uid c =? 0 then g else c_gid c | None => c_gid c end else c_gid c.
+Hypothesis VM : validate_mode mode = st_ok.
+Hypothesis L : lookup_node s h = Some (d, da).
+Hypothesis K : na_kind da = KDir.
+Hypothesis Go : fs_get (fs s) d = Some o.
+Let p := d ++ [n].
+Let so := handle_create s c h n how sa.
+Let B := be_create (fs s) p (now s).
+
+(* the outcome: (status, tree) *)
+Definition create_ok_block : Prop := exists a rest, ob_attrs (snd so) = sf a :: rest /\ attr_ok (fs (fst so)) p a.
+Lemma handle_create_fwd :
+  Good (fst so) /\
+  match fs_get (fs s) p with
+  | Some x =>
+    if how =? 2 then ob_status (snd so) = 0 /\ fs (fst so) = fs s /\ create_ok_block
+    else if (how =? 1) || negb (kind_eqb (o_kind x) KFile) then ob_status (snd so) = NFSERR_EXIST /\ fs (fst so) = fs s
+    else match (if with_sattr then s_size sa else None) with
+         | Some sz =>
+           if two63N <=? sz then ob_status (snd so) = 0 /\ fs (fst so) = fs s /\ create_ok_block
+           else if (0 <? maxfile (conf s)) && (maxfile (conf s) <? sz) then ob_status (snd so) = NFSERR_FBIG /\ fs (fst so) = fs s
+           else ob_status (snd so) = 0 /\ fs (fst so) = fst (be_truncate (fs s) p (Z.of_N sz) (now s)) /\ create_ok_block
+         | None => ob_status (snd so) = 0 /\ fs (fst so) = fs s /\ create_ok_block
+         end
+  | None =>
+    if sanitize_ok d n then
+      match snd B with
+      | Ok _ => ob_status (snd so) = 0 /\ create_ok_block /\
+                fs (fst so) = fst (be_chown (fst (be_chmod (fst B) p (N.land mode 511))) p uid gid)
+      | Err e => ob_status (snd so) = map_error e /\ fs (fst so) = fs s
+      end
+    else ob_status (snd so) = map_error EIO /\ fs (fst so) = fs s
+  end.
+Proof.
+  assert (GD : gpath d) by (apply lookup_node_get in L; exact (g_hok s G h d L)).
+  assert (GP : gpath p) by (apply gpath_app; [exact GD|apply vname_gcomp; exact V]).
+  pose proof (gpath_nodd d GD) as NDd. pose proof (gpath_nodd p GP) as NDp.
+  unfold create_ok_block, so, handle_create. cbv zeta. rewrite RO, (vname_negb n V). fold with_sattr. fold mode. rewrite VM.
+  change (negb (st_ok =? st_ok)) with false. cbv iota. rewrite L, K. cbn [kind_eqb negb].
+  destruct (getattr_h_ok s h d o G NDd Go) as (s1 & dpre & E & C1 & G1 & _). rewrite E.
+  pose proof C1 as (F1 & _ & _ & CF1 & N1). unfold do_lstat. cbn [fst snd]. rewrite F1. fold p.
+  set (S0 := logc s1 (bc BLstat p)).
+  assert (G0 : Good S0) by (apply Good_logc; exact G1).
+  assert (F0 : fs S0 = fs s) by exact F1. assert (N0 : now S0 = now s) by exact N1. assert (CF0 : conf S0 = conf s) by exact CF1.
+  clearbody S0.
+  (* the successful tail shared by several branches *)
+  assert (TAIL : forall s2 x, Good s2 -> fs_get (fs s2) p = Some x -> fs_get (fs s2) d <> None ->
+            let r := (let '(s3, r) := srv_lookup s2 p in
+                      match r with Ok a => created_reply s3 h d p a dpre | Err e => failed_reply s3 h d (map_error e) dpre end) in
+            Good (fst r) /\ ob_status (snd r) = 0 /\ fs (fst r) = fs s2 /\
+            exists a rest, ob_attrs (snd r) = sf a :: rest /\ attr_ok (fs (fst r)) p a).
+  { intros s2 x G2 P2 D2. cbv zeta. destruct (srv_lookup_ok s2 p x G2 NDp P2) as (s3 & a & E3 & C3 & G3 & OK3). rewrite E3.
+    pose proof C3 as (F3 & _). destruct (fs_get (fs s2) d) as [o2|] eqn:Gd; [|congruence].
+    destruct (created_reply_ok s3 h d p a dpre o2 G3 NDd GP) as (Q1 & Q2 & Q3 & rest & Q4); [rewrite F3; exact Gd|].
+    split; [exact Q2|]. split; [exact Q3|]. split; [congruence|]. exists a, rest. split; [exact Q4|]. rewrite Q1, F3. exact OK3. }
+  destruct (fs_get (fs s) p) as [x|] eqn:Gp.
+  - rewrite (be_stat_present (fs s) (g_wf s G) (g_nl s G) p x false NDp Gp). cbn [info_of fi_kind].
+    destruct (how =? 2).
+    { destruct (srv_lookup_ok S0 p x G0 NDp) as (s3 & a & E3 & C3 & G3 & OK3); [rewrite F0; exact Gp|]. rewrite E3.
+      pose proof C3 as (F3 & _).
+      destruct (getattr_h_out s3 h d G3 NDd) as [[F4 _] G4]. destruct (getattr_h s3 h d) as [s4 dpost]. cbn [fst] in *.
+      pose proof (Good_alloc s4 p a G4 GP) as G5. destruct (alloc_parts s4 p a) as (F5 & _).
+      destruct (alloc s4 p a) as [s5 fh]. cbn [fst snd] in *.
+      split; [exact G5|]. split; [reflexivity|]. split; [congruence|]. exists a. eexists. split; [reflexivity|].
+      rewrite F5, F4, F3. exact OK3. }
+    destruct ((how =? 1) || negb (kind_eqb (o_kind x) KFile)) eqn:HK.
+    { destruct (failed_reply_out S0 h d NFSERR_EXIST dpre G0 NDd) as (Q1 & Q2 & Q3).
+      split; [exact Q2|]. split; [exact Q3|]. destruct Q1 as (Q1 & _). congruence. }
+    apply orb_false_elim in HK. destruct HK as [_ HK]. apply negb_false_iff, kind_eqb_eq in HK.
+    assert (D0 : fs_get (fs S0) d <> None) by (rewrite F0, Go; discriminate).
+    destruct (if with_sattr then s_size sa else None) as [sz|]; cbn [fst snd].
+    2:{ destruct (TAIL S0 x G0) as (T1 & T2 & T3 & T4); [rewrite F0; exact Gp|exact D0|]. split; [exact T1|]. split; [exact T2|].
+        split; [congruence|exact T4]. }
+    destruct (two63N <=? sz); cbn [fst snd].
+    { destruct (TAIL S0 x G0) as (T1 & T2 & T3 & T4); [rewrite F0; exact Gp|exact D0|]. split; [exact T1|]. split; [exact T2|].
+      split; [congruence|exact T4]. }
+    rewrite CF0. destruct ((0 <? maxfile (conf s)) && (maxfile (conf s) <? sz)); cbn [fst snd].
+    { destruct (failed_reply_out S0 h d (map_error EFBIG) dpre G0 NDd) as (Q1 & Q2 & Q3).
+      split; [exact Q2|]. split; [exact Q3|]. destruct Q1 as (Q1 & _). congruence. }
+    unfold lift_unit. cbn [fst snd]. rewrite F0, N0.
+    destruct (be_truncate_spec (fs s) (g_wf s G) (g_nl s G) p (Z.of_N sz) (now s) NDp) as [e0 TS].
+    rewrite Gp, HK in TS. assert (ZL : (Z.of_N sz <? 0)%Z = false) by (apply Z.ltb_ge; lia). rewrite ZL in TS. rewrite TS. cbn [fst snd].
+    match goal with |- context [srv_lookup ?s2 p] => assert (G2 : Good s2 /\ fs s2 = fst (be_truncate (fs s) p (Z.of_N sz) (now s))) end.
+    { split; [|rewrite TS; reflexivity].
+      pose proof (truncate_block_good S0 p (Z.of_N sz) (now S0) (bc2 BTruncate p [] sz 0) G0 NDp) as TG.
+      rewrite F0, N0, TS in TG. exact TG. }
+    destruct G2 as [G2 F2]. rewrite TS in F2. cbn [fst] in F2.
+    match goal with |- context [srv_lookup ?s2 p] =>
+      destruct (TAIL s2 (set_data x (Z.to_N (Z.of_N sz)) (sd_trunc (o_data x) (Z.to_N (Z.of_N sz))) (now s)) G2) as (T1 & T2 & T3 & T4) end.
+    { rewrite F2, fs_get_upd, peqb_refl, Gp. reflexivity. }
+    { rewrite F2, fs_get_upd. destruct (path_eqb d p); rewrite Go; discriminate. }
+    split; [exact T1|]. split; [exact T2|]. split; [congruence|exact T4].
+  - destruct (be_stat_absent (fs s) (g_wf s G) (g_nl s G) p false NDp Gp) as [e [BS _]]. rewrite BS.
+    assert (RO0 : ro (conf S0) = false) by (rewrite CF0; exact RO).
+    destruct (sanitize_ok d n) eqn:SAN.
+    2:{ fold uid. fold gid. unfold srv_create. rewrite RO0, SAN. cbn [negb].
+        destruct (failed_reply_out S0 h d (map_error EIO) dpre G0 NDd) as (Q1 & Q2 & Q3).
+        split; [exact Q2|]. split; [exact Q3|]. destruct Q1 as (Q1 & _). congruence. }
+    pose proof (srv_create_fwd S0 d n mode uid gid G0 RO0 GD V SAN) as SC. cbv zeta in SC. rewrite F0, N0 in SC. fold p in SC. fold B in SC.
+    fold uid. fold gid.
+    destruct (srv_create S0 d n mode uid gid) as [s3 r]. cbn [fst snd] in SC. destruct SC as [G3 SC].
+    destruct (snd B) as [q|e1].
+    + destruct SC as (a & -> & OK3 & F3).
+      assert (Gd3 : exists o3, fs_get (fs s3) d = Some o3).
+      { unfold B in F3. destruct (be_create (fs s) p (now s)) as [f1 [q1|e1]] eqn:EB.
+        - destruct (create_chain _ _ _ (N.land mode 511) uid gid _ _ (g_wf _ G) (g_nl _ G) NDp EB) as (f2 & f3 & C2 & C3 & LC & _).
+          cbn [fst] in F3. rewrite C2 in F3. cbn [fst] in F3. rewrite C3 in F3. cbn [fst] in F3. rewrite F3.
+          destruct LC as (_ & _ & HP & _). destruct (get_pk (fs s) f3 d o Go) as [o' [Go' _]]; [apply HP; unfold p; apply not_eq_sym, snoc_neq|].
+          exists o'. exact Go'.
+        - (* be_create failed: then srv_create cannot have answered Ok; but here snd B was Ok *) 
+          cbn [fst] in F3. exists o. 
+          assert (f1 = fs s) as -> by (eapply be_create_err; [exact G|exact NDp|exact EB]).
+          (* chmod/chown of an absent path leave the tree alone *)
+          destruct (be_meta_spec (fs s) (g_wf s G) (g_nl s G) p true (fun o0 => set_meta o0 (N.land (N.land mode 511) 511) (o_uid o0) (o_gid o0) (o_mtime o0)) NDp) as [e2 S2].
+          unfold be_chmod in F3. rewrite S2, Gp in F3. cbn [fst] in F3.
+          destruct (be_meta_spec (fs s) (g_wf s G) (g_nl s G) p true (fun o0 => set_meta o0 (o_perm o0) uid gid (o_mtime o0)) NDp) as [e3 S3].
+          unfold be_chown in F3. rewrite S3, Gp in F3. cbn [fst] in F3. rewrite F3. exact Go. }
+      destruct Gd3 as [o3 Gd3].
+      destruct (created_reply_ok s3 h d p a dpre o3 G3 NDd GP Gd3) as (Q1 & Q2 & Q3 & rest & Q4).
+      split; [exact Q2|]. split; [exact Q3|]. split; [exists a, rest; split; [exact Q4|rewrite Q1; exact OK3]|]. congruence.
+    + destruct SC as (-> & F3).
+      destruct (failed_reply_out s3 h d (map_error e1) dpre G3 NDd) as (Q1 & Q2 & Q3).
+      split; [exact Q2|]. split; [exact Q3|]. destruct Q1 as (Q1 & _). congruence.
+Qed.
+End CreateFwd.
+
+(* RENAME *)
+Lemma prefix_snoc_self (d : path) n : is_prefix (d ++ [n]) d = false.
+Proof.
+  apply is_prefix_false. intros r H. apply (f_equal (@length name)) in H. rewrite !app_length in H. cbn in H. lia.
+Qed.
+Lemma rename_parents_kept f d1 n1 d2 n2 t o1 o2 : WF f -> rename_ok f (d1 ++ [n1]) (d2 ++ [n2]) = true -> d1 ++ [n1] <> d2 ++ [n2] ->
+  fs_get f d1 = Some o1 -> fs_get f d2 = Some o2 ->
+  pk (renamed f (d1 ++ [n1]) (d2 ++ [n2]) t) d1 = pk f d1 /\ pk (renamed f (d1 ++ [n1]) (d2 ++ [n2]) t) d2 = pk f d2.
+Proof.
+  intros W OK NE G1 G2. destruct (rename_ok_facts f W _ _ OK NE) as (_ & _ & [oo Go] & _ & NP & NB).
+  split; apply pk_renamed.
+  - apply prefix_snoc_self.
+  - destruct (is_prefix (d2 ++ [n2]) d1) eqn:P; [|reflexivity]. exfalso. apply is_prefix_spec in P. destruct P as [r P].
+    destruct r as [|y r'].
+    + rewrite app_nil_r in P. subst d1. rewrite (NB [n1]) in Go; [discriminate|discriminate].
+    + rewrite P, NB in G1; [discriminate|discriminate].
+  - destruct (is_prefix (d1 ++ [n1]) d2) eqn:P; [|reflexivity]. exfalso.
+    rewrite (is_prefix_trans _ _ _ P (is_prefix_app d2 [n2])) in NP. discriminate.
+  - apply prefix_snoc_self.
+Qed.
+
+Section RenameFwd.
+Variables (s : srv) (h1 h2 : N) (n1 n2 : name) (d1 d2 : path) (da1 da2 : nattrs) (o1 o2 : obj).
+Hypothesis G : Good s.
+Hypothesis RO : ro (conf s) = false.
+Hypothesis V1 : vname n1.
+Hypothesis V2 : vname n2.
+Hypothesis L1 : lookup_node s h1 = Some (d1, da1).
+Hypothesis L2 : lookup_node s h2 = Some (d2, da2).
+Hypothesis K1 : na_kind da1 = KDir.
+Hypothesis K2 : na_kind da2 = KDir.
+Hypothesis Go1 : fs_get (fs s) d1 = Some o1.
+Hypothesis Go2 : fs_get (fs s) d2 = Some o2.
+Hypothesis SAN1 : sanitize_ok d1 n1 = true.
+Hypothesis SAN2 : sanitize_ok d2 n2 = true.
+
+Lemma handle_rename_fwd : let so := handle_rename s h1 n1 h2 n2 in let B := be_rename (fs s) (d1 ++ [n1]) (d2 ++ [n2]) (now s) in
+  Good (fst so) /\
+  match snd B with
+  | Ok _ => ob_status (snd so) = 0 /\ fs (fst so) = fst B
+  | Err e => ob_status (snd so) = map_error e /\ fs (fst so) = fs s
+  end.
+Proof.
+  assert (GD1 : gpath d1) by (apply lookup_node_get in L1; exact (g_hok s G h1 d1 L1)).
+  assert (GD2 : gpath d2) by (apply lookup_node_get in L2; exact (g_hok s G h2 d2 L2)).
+  assert (GP1 : gpath (d1 ++ [n1])) by (apply gpath_app; [exact GD1|apply vname_gcomp; exact V1]).
+  assert (GP2 : gpath (d2 ++ [n2])) by (apply gpath_app; [exact GD2|apply vname_gcomp; exact V2]).
+  pose proof (gpath_nodd _ GD1) as ND1. pose proof (gpath_nodd _ GD2) as ND2.
+  pose proof (gpath_nodd _ GP1) as NP1. pose proof (gpath_nodd _ GP2) as NP2.
+  cbv zeta. unfold handle_rename. rewrite RO, (vname_negb n1 V1), (vname_negb n2 V2), L1, L2, K1, K2. cbn [kind_eqb negb orb].
+  destruct (getattr_h_ok s h1 d1 o1 G ND1 Go1) as (s1 & a1 & E1 & C1 & G1 & _). rewrite E1.
+  pose proof C1 as (F1 & _ & _ & _ & N1).
+  destruct (getattr_h_ok s1 h2 d2 o2 G1 ND2) as (s2 & a2 & E2 & C2 & G2 & _); [rewrite F1; exact Go2|]. rewrite E2.
+  pose proof C2 as (F2 & _ & _ & _ & N2). rewrite SAN1, SAN2. cbn [negb orb].
+  unfold lift_unit. cbn [fst snd]. rewrite F2, F1, N2, N1.
+  (* the failure tail *)
+  assert (FAIL : forall s' code, Good s' -> fs s' = fs s ->
+            let r := (let '(s3, p1) := getattr_h s' h1 d1 in let '(s4, p2) := getattr_h s3 h2 d2 in
+                      (s4, ob_mk code [match p1 with Ok x => sf x | Err _ => sf a1 end; match p2 with Ok x => sf x | Err _ => sf a2 end]
+                             [wcc_of a1; wcc_of a2] None [] [])) in
+            Good (fst r) /\ ob_status (snd r) = code /\ fs (fst r) = fs s).
+  { intros s' code G' F'. cbv zeta. destruct (getattr_h_out s' h1 d1 G' ND1) as [[A1 _] B1]. destruct (getattr_h s' h1 d1) as [s3 p1]. cbn [fst] in *.
+    destruct (getattr_h_out s3 h2 d2 B1 ND2) as [[A2 _] B2]. destruct (getattr_h s3 h2 d2) as [s4 p2]. cbn [fst snd] in *.
+    split; [exact B2|]. split; [reflexivity|congruence]. }
+  destruct (be_rename (fs s) (d1 ++ [n1]) (d2 ++ [n2]) (now s)) as [f' [[]|e]] eqn:EB; cbn [fst snd].
+  - match goal with |- context [getattr_h ?s5 h1 d1] => assert (G5 : Good s5 /\ fs s5 = f') end.
+    { split; [|inv_simpl; reflexivity]. apply rename_block_good; [exact G2|exact NP1|exact NP2|rewrite F2, F1, N2, N1; exact EB]. }
+    destruct G5 as [G5 F5].
+    assert (PR : exists x1 x2, fs_get f' d1 = Some x1 /\ fs_get f' d2 = Some x2).
+    { destruct (be_rename_spec (fs s) (d1 ++ [n1]) (d2 ++ [n2]) (now s) (g_wf s G) (g_nl s G) NP1 NP2) as [e0 S]. rewrite S in EB.
+      destruct (rename_ok (fs s) (d1 ++ [n1]) (d2 ++ [n2])) eqn:OK; [|discriminate].
+      peq (d1 ++ [n1]) (d2 ++ [n2]).
+      - apply (f_equal fst) in EB. cbn [fst] in EB. subst f'. eauto.
+      - apply (f_equal fst) in EB. cbn [fst] in EB. subst f'.
+        destruct (rename_parents_kept (fs s) d1 n1 d2 n2 (now s) o1 o2 (g_wf s G) OK E Go1 Go2) as [P1 P2].
+        destruct (get_pk _ _ d1 o1 Go1 P1) as [x1 [X1 _]]. destruct (get_pk _ _ d2 o2 Go2 P2) as [x2 [X2 _]]. eauto. }
+    destruct PR as (x1 & x2 & X1 & X2).
+    match goal with |- context [getattr_h ?s5 h1 d1] =>
+      destruct (getattr_h_ok s5 h1 d1 x1 G5 ND1) as (s6 & y1 & E6 & C6 & G6 & _); [rewrite F5; exact X1|]; rewrite E6 end.
+    pose proof C6 as (F6 & _).
+    destruct (getattr_h_ok s6 h2 d2 x2 G6 ND2) as (s7 & y2 & E7 & C7 & G7 & _); [rewrite F6, F5; exact X2|]. rewrite E7.
+    pose proof C7 as (F7 & _). cbn [fst snd]. split; [exact G7|]. split; [reflexivity|congruence].
+  - assert (f' = fs s) as -> by (eapply be_rename_err; [exact G|exact NP1|exact NP2|exact EB]).
+    match goal with |- context [getattr_h ?s' h1 d1] =>
+      destruct (FAIL s' (map_error e)) as (Q1 & Q2 & Q3); [rewrite <- F1, <- F2; apply Good_with_fs_same; exact G2|reflexivity|] end.
+    cbv zeta in Q1, Q2, Q3. split; [exact Q1|]. split; [exact Q2|exact Q3].
+Qed.
+End RenameFwd.
+
+(* ====================================================================================================== *)
+(* 10. a failed request leaves the tree unchanged                                                         *)
+(* ====================================================================================================== *)
+Lemma getattr_h_absent s h p : Good s -> nodd p -> fs_get (fs s) p = None ->
+  exists s1 e, getattr_h s h p = (s1, Err e) /\ fs s1 = fs s.
+Proof.
+  intros G ND Gp. destruct (getattr_h_out s h p G ND) as [[F _] _]. pose proof (getattr_h_res s h p G ND) as R.
+  destruct (getattr_h s h p) as [s1 [a|e]]; cbn [fst snd getattr_res] in *.
+  - destruct R as [o [R _]]. congruence.
+  - exists s1, e. auto.
+Qed.
+Lemma negb_eqb_false a b : negb (a =? b) = false -> a = b.
+Proof. intros H. apply negb_false_iff, N.eqb_eq in H. exact H. Qed.
+Lemma negb_kind_false k : negb (kind_eqb k KDir) = false -> k = KDir.
+Proof. intros H. apply negb_false_iff, kind_eqb_eq in H. exact H. Qed.
+
+Lemma handle_mkdir_nochange s c h n sa : Good s ->
+  fs (fst (handle_mkdir s c h n sa)) = fs s \/ ob_status (snd (handle_mkdir s c h n sa)) = 0.
+Proof.
+  intros G.
+  destruct (ro (conf s)) eqn:RO; [left; unfold handle_mkdir; rewrite RO; reflexivity|].
+  destruct (negb (validate_name n =? st_ok)) eqn:V; [left; unfold handle_mkdir; rewrite RO, V; reflexivity|].
+  destruct (negb (validate_mode (match s_mode sa with Some m => m | None => 493 end) =? st_ok)) eqn:VM;
+    [left; unfold handle_mkdir; cbv zeta; rewrite RO, V, VM; reflexivity|].
+  destruct (lookup_node s h) as [[d da]|] eqn:L; [|left; unfold handle_mkdir; cbv zeta; rewrite RO, V, VM, L; reflexivity].
+  destruct (negb (kind_eqb (na_kind da) KDir)) eqn:K; [left; unfold handle_mkdir; cbv zeta; rewrite RO, V, VM, L, K; reflexivity|].
+  destruct (fs_get (fs s) d) as [o|] eqn:Go.
+  - destruct (handle_mkdir_fwd s c h n sa d da o G RO (vname_of_negb n V) (negb_eqb_false _ _ VM) L (negb_kind_false _ K) Go) as [_ H].
+    destruct (snd (be_mkdir _ _ _ _)); [right; destruct H as (? & ? & ? & ? & H & _); exact H|left; apply H].
+  - left. unfold handle_mkdir. cbv zeta. rewrite RO, V, VM, L, K.
+    assert (ND : nodd d) by (apply gpath_nodd; apply lookup_node_get in L; exact (g_hok s G h d L)).
+    destruct (getattr_h_absent s h d G ND Go) as (s1 & e & E & F). rewrite E. exact F.
+Qed.
+Lemma handle_remove_nochange s h n : Good s ->
+  fs (fst (handle_remove s h n)) = fs s \/ ob_status (snd (handle_remove s h n)) = 0.
+Proof.
+  intros G.
+  destruct (ro (conf s)) eqn:RO; [left; unfold handle_remove; rewrite RO; reflexivity|].
+  destruct (negb (validate_name n =? st_ok)) eqn:V; [left; unfold handle_remove; rewrite RO, V; reflexivity|].
+  destruct (lookup_node s h) as [[d da]|] eqn:L; [|left; unfold handle_remove; rewrite RO, V, L; reflexivity].
+  destruct (negb (kind_eqb (na_kind da) KDir)) eqn:K; [left; unfold handle_remove; rewrite RO, V, L, K; reflexivity|].
+  assert (ND : nodd d) by (apply gpath_nodd; apply lookup_node_get in L; exact (g_hok s G h d L)).
+  destruct (fs_get (fs s) d) as [o|] eqn:Go.
+  - destruct (sanitize_ok d n) eqn:SAN.
+    + destruct (handle_remove_fwd s h n d da G (vname_of_negb n V) L (negb_kind_false _ K) o RO Go SAN) as [_ H].
+      destruct (snd (be_remove _ _ _)); [right; apply H|left; apply H].
+    + left. unfold handle_remove. rewrite RO, V, L, K.
+      destruct (getattr_h_ok s h d o G ND Go) as (s1 & a & E & C1 & G1 & _). rewrite E, SAN. cbn [negb].
+      destruct (failed_reply_out s1 h d NFSERR_IO a G1 ND) as ((F & _) & _). destruct C1 as (F1 & _). congruence.
+  - left. unfold handle_remove. rewrite RO, V, L, K.
+    destruct (getattr_h_absent s h d G ND Go) as (s1 & e & E & F). rewrite E. exact F.
+Qed.
+Lemma handle_rmdir_nochange s h n : Good s ->
+  fs (fst (handle_rmdir s h n)) = fs s \/ ob_status (snd (handle_rmdir s h n)) = 0.
+Proof.
+  intros G.
+  destruct (ro (conf s)) eqn:RO; [left; unfold handle_rmdir; rewrite RO; reflexivity|].
+  destruct (negb (validate_name n =? st_ok)) eqn:V; [left; unfold handle_rmdir; rewrite RO, V; reflexivity|].
+  destruct (lookup_node s h) as [[d da]|] eqn:L; [|left; unfold handle_rmdir; rewrite RO, V, L; reflexivity].
+  destruct (negb (kind_eqb (na_kind da) KDir)) eqn:K; [left; unfold handle_rmdir; rewrite RO, V, L, K; reflexivity|].
+  assert (ND : nodd d) by (apply gpath_nodd; apply lookup_node_get in L; exact (g_hok s G h d L)).
+  destruct (fs_get (fs s) d) as [o|] eqn:Go.
+  - destruct (handle_rmdir_fwd s h n d da G (vname_of_negb n V) L (negb_kind_false _ K) o RO Go) as [_ H].
+    destruct (fs_get (fs s) (d ++ [n])) as [x|]; [|left; apply H].
+    destruct (negb (kind_eqb (o_kind x) KDir)); [left; apply H|].
+    destruct (snd (be_remove _ _ _)); [right; apply H|left; apply H].
+  - left. unfold handle_rmdir. rewrite RO, V, L, K.
+    destruct (getattr_h_absent s h d G ND Go) as (s1 & e & E & F). rewrite E. exact F.
+Qed.
+
+Lemma handle_create_nochange s c h n how sa : Good s ->
+  fs (fst (handle_create s c h n how sa)) = fs s \/ ob_status (snd (handle_create s c h n how sa)) = 0.
+Proof.
+  intros G.
+  destruct (ro (conf s)) eqn:RO; [left; unfold handle_create; rewrite RO; reflexivity|].
+  destruct (negb (validate_name n =? st_ok)) eqn:V; [left; unfold handle_create; rewrite RO, V; reflexivity|].
+  destruct (negb (validate_mode (if (how =? 0) || (how =? 1) then match s_mode sa with Some m => m | None => 420 end else 420) =? st_ok)) eqn:VM;
+    [left; unfold handle_create; cbv zeta; rewrite RO, V, VM; reflexivity|].
+  destruct (lookup_node s h) as [[d da]|] eqn:L; [|left; unfold handle_create; cbv zeta; rewrite RO, V, VM, L; reflexivity].
+  destruct (negb (kind_eqb (na_kind da) KDir)) eqn:K; [left; unfold handle_create; cbv zeta; rewrite RO, V, VM, L, K; reflexivity|].
+  destruct (fs_get (fs s) d) as [o|] eqn:Go.
+  - destruct (handle_create_fwd s c h n how sa d da o G RO (vname_of_negb n V) (negb_eqb_false _ _ VM) L (negb_kind_false _ K) Go) as [_ H].
+    destruct (fs_get (fs s) (d ++ [n])) as [x|].
+    + destruct (how =? 2); [right; apply H|].
+      destruct ((how =? 1) || negb (kind_eqb (o_kind x) KFile)); [left; apply H|].
+      destruct (if (how =? 0) || (how =? 1) then s_size sa else None) as [sz|]; [|right; apply H].
+      destruct (two63N <=? sz); [right; apply H|].
+      destruct ((0 <? maxfile (conf s)) && (maxfile (conf s) <? sz)); [left; apply H|right; apply H].
+    + destruct (sanitize_ok d n); [|left; apply H].
+      destruct (snd (be_create _ _ _)); [right; apply H|left; apply H].
+  - left. unfold handle_create. cbv zeta. rewrite RO, V, VM, L, K.
+    assert (ND : nodd d) by (apply gpath_nodd; apply lookup_node_get in L; exact (g_hok s G h d L)).
+    destruct (getattr_h_absent s h d G ND Go) as (s1 & e & E & F). rewrite E. exact F.
+Qed.
+
+Lemma handle_rename_nochange s h1 n1 h2 n2 : Good s ->
+  fs (fst (handle_rename s h1 n1 h2 n2)) = fs s \/ ob_status (snd (handle_rename s h1 n1 h2 n2)) = 0.
+Proof.
+  intros G.
+  destruct (ro (conf s)) eqn:RO; [left; unfold handle_rename; rewrite RO; reflexivity|].
+  destruct (negb (validate_name n1 =? st_ok)) eqn:V1; [left; unfold handle_rename; rewrite RO, V1; reflexivity|].
+  destruct (negb (validate_name n2 =? st_ok)) eqn:V2; [left; unfold handle_rename; rewrite RO, V1, V2; reflexivity|].
+  destruct (lookup_node s h1) as [[d1 da1]|] eqn:L1; [|left; unfold handle_rename; rewrite RO, V1, V2, L1; reflexivity].
+  destruct (lookup_node s h2) as [[d2 da2]|] eqn:L2; [|left; unfold handle_rename; rewrite RO, V1, V2, L1, L2; reflexivity].
+  destruct (negb (kind_eqb (na_kind da1) KDir) || negb (kind_eqb (na_kind da2) KDir)) eqn:K;
+    [left; unfold handle_rename; rewrite RO, V1, V2, L1, L2, K; reflexivity|].
+  pose proof K as K'. apply orb_false_elim in K'. destruct K' as [K1 K2].
+  assert (ND1 : nodd d1) by (apply gpath_nodd; apply lookup_node_get in L1; exact (g_hok s G h1 d1 L1)).
+  assert (ND2 : nodd d2) by (apply gpath_nodd; apply lookup_node_get in L2; exact (g_hok s G h2 d2 L2)).
+  destruct (fs_get (fs s) d1) as [o1|] eqn:Go1.
+  2:{ left. unfold handle_rename. rewrite RO, V1, V2, L1, L2, K.
+      destruct (getattr_h_absent s h1 d1 G ND1 Go1) as (s1 & e & E & F). rewrite E. exact F. }
+  destruct (fs_get (fs s) d2) as [o2|] eqn:Go2.
+  2:{ left. unfold handle_rename. rewrite RO, V1, V2, L1, L2, K.
+      destruct (getattr_h_ok s h1 d1 o1 G ND1 Go1) as (s1 & a1 & E1 & C1 & G1 & _). rewrite E1. pose proof C1 as (F1 & _).
+      destruct (getattr_h_absent s1 h2 d2 G1 ND2) as (s2 & e & E & F); [rewrite F1; exact Go2|]. rewrite E. cbn [fst]. congruence. }
+  destruct (negb (sanitize_ok d1 n1) || negb (sanitize_ok d2 n2)) eqn:SAN.
+  - left. unfold handle_rename. cbv zeta. rewrite RO, V1, V2, L1, L2, K.
+    destruct (getattr_h_ok s h1 d1 o1 G ND1 Go1) as (s1 & a1 & E1 & C1 & G1 & _). rewrite E1. pose proof C1 as (F1 & _).
+    destruct (getattr_h_ok s1 h2 d2 o2 G1 ND2) as (s2 & a2 & E2 & C2 & G2 & _); [rewrite F1; exact Go2|]. rewrite E2. pose proof C2 as (F2 & _).
+    rewrite SAN.
+    destruct (getattr_h_out s2 h1 d1 G2 ND1) as [[A1 _] B1]. destruct (getattr_h s2 h1 d1) as [s3 p1]. cbn [fst] in *.
+    destruct (getattr_h_out s3 h2 d2 B1 ND2) as [[A2 _] B2]. destruct (getattr_h s3 h2 d2) as [s4 p2]. cbn [fst snd] in *. congruence.
+  - apply orb_false_elim in SAN. destruct SAN as [S1 S2]. apply negb_false_iff in S1, S2.
+    destruct (handle_rename_fwd s h1 h2 n1 n2 d1 d2 da1 da2 o1 o2 G RO (vname_of_negb n1 V1) (vname_of_negb n2 V2) L1 L2
+                (negb_kind_false _ K1) (negb_kind_false _ K2) Go1 Go2 S1 S2) as [_ H].
+    destruct (snd (be_rename _ _ _ _)); [right; apply H|left; apply H].
+Qed.
+
+(* the procedures of the property *)
+Definition ns_req (r : req) : bool :=
+  match r with
+  | RLookup _ _ | RCreate _ _ _ _ | RMkdir _ _ _ | RRemove _ _ | RRmdir _ _ | RRename _ _ _ _
+  | RReaddir _ _ _ | RReaddirplus _ _ _ _ | RGetattr _ | RReadlink _ | RMnt _ => true
+  | _ => false
+  end.
+Theorem failed_no_change s c r : Good s -> ns_req r = true ->
+  ob_status (snd (step s c r)) <> 0 -> fs (fst (step s c r)) = fs s.
+Proof.
+  intros G NS ST. pose proof (Good_clear s G) as G0. unfold step in *.
+  destruct (garbage_reply (clear_log s) r) as [o|]; [reflexivity|].
+  assert (X : forall so : srv * obs, fs (fst so) = fs (clear_log s) \/ ob_status (snd so) = 0 -> ob_status (snd so) <> 0 -> fs (fst so) = fs s).
+  { intros so [H|H] N; [exact H|congruence]. }
+  destruct r; try discriminate NS.
+  - apply (proj1 (handle_getattr_ro (clear_log s) h)).
+  - apply (proj1 (handle_lookup_ro (clear_log s) h n)).
+  - apply (proj1 (handle_readlink_ro (clear_log s) h)).
+  - apply X; [apply handle_create_nochange; exact G0|exact ST].
+  - apply X; [apply handle_mkdir_nochange; exact G0|exact ST].
+  - apply X; [apply handle_remove_nochange; exact G0|exact ST].
+  - apply X; [apply handle_rmdir_nochange; exact G0|exact ST].
+  - apply X; [apply handle_rename_nochange; exact G0|exact ST].
+  - apply (proj1 (handle_readdir_ro (clear_log s) h cookie count)).
+  - apply (proj1 (handle_readdirplus_ro (clear_log s) h cookie maxcount)).
+  - apply (proj1 (handle_mnt_ro (clear_log s) p)).
+Qed.
+
+(* ====================================================================================================== *)
+(* 11. success and failure against the tree (the POSIX side of C02), and the C04 corollary                *)
+(* ====================================================================================================== *)
+Lemma vname_str_ok n : vname n -> str_ok n = true.
+Proof.
+  intros V. apply vname_spec in V. destruct V as (_ & LEN & NUL & _). unfold str_ok.
+  change (st c_MAX_XDR_STRING_LENGTH) with 8192. apply andb_true_iff. split; [apply N.leb_le; lia|].
+  apply negb_true_iff. apply existsb_eqb_false. exact NUL.
+Qed.
+Lemma lookup_node_clear s h : lookup_node (clear_log s) h = lookup_node s h.
+Proof. reflexivity. Qed.
+Lemma removable_iff f p : removable f p = true <->
+  exists x, fs_get f p = Some x /\ p <> [] /\ ~ (o_kind x = KDir /\ has_children f p = true).
+Proof.
+  unfold removable. destruct (fs_get f p) as [x|]; [|split; [discriminate|intros [x [H _]]; discriminate]].
+  rewrite andb_true_iff, !negb_true_iff. split.
+  - intros [A B]. exists x. split; [reflexivity|]. split; [destruct p; [discriminate|discriminate]|].
+    intros [C D]. rewrite C, D in B. discriminate.
+  - intros [x' [[= <-] [NE N]]]. split; [destruct p; [congruence|reflexivity]|].
+    destruct (kind_eqb (o_kind x) KDir) eqn:KK; [|reflexivity]. apply kind_eqb_eq in KK.
+    destruct (has_children f p) eqn:HC; [exfalso; apply N; auto|reflexivity].
+Qed.
+
+Section Posix.
+Variables (s : srv) (c : cred) (h : N) (n : name) (d : path) (da : nattrs).
+Hypothesis G : Good s.
+Hypothesis V : vname n.
+Hypothesis L : lookup_node s h = Some (d, da).
+Hypothesis K : na_kind da = KDir.
+Let p := d ++ [n].
+Let G0 := Good_clear s G.
+
+(* LOOKUP d n succeeds iff n names an entry of d; it never changes the tree *)
+Theorem posix_lookup : let so := step s c (RLookup h n) in
+  (ob_status (snd so) = 0 <-> In n (listing (fs s) d)) /\ fs (fst so) = fs s.
+Proof.
+  cbv zeta. unfold step. cbn [garbage_reply]. rewrite (vname_str_ok n V).
+  destruct (handle_lookup_fwd (clear_log s) h n d da G0 V L K) as (_ & F & H). split; [|exact F].
+  rewrite In_listing. change (fs (clear_log s)) with (fs s) in H. fold p in H. fold p.
+  destruct (fs_get (fs s) p) as [x|].
+  - split; [intros _; discriminate|intros _; apply H].
+  - destruct H as [e [_ H]]. rewrite H. split; [intros F0; exfalso; exact (map_error_nonzero e F0)|congruence].
+Qed.
+(* the attribute block of a successful LOOKUP describes the object (C04) *)
+Theorem lookup_block : let so := step s c (RLookup h n) in
+  ob_status (snd so) = 0 ->
+  exists a rest x, ob_attrs (snd so) = Some (fattr_of a) :: rest /\ fs_get (fs (fst so)) p = Some x /\
+    be_stat (fs (fst so)) p false = Ok (info_of x) /\
+    fa_type (fattr_of a) = ftype_of (o_kind x) /\ fa_fileid (fattr_of a) = fileid_of p /\
+    fa_size (fattr_of a) = stat_size x /\ fa_perm (fattr_of a) = o_perm x.
+Proof.
+  cbv zeta. unfold step. cbn [garbage_reply]. rewrite (vname_str_ok n V).
+  destruct (handle_lookup_fwd (clear_log s) h n d da G0 V L K) as (G1 & F & H). intros ST.
+  change (fs (clear_log s)) with (fs s) in *. fold p in H.
+  destruct (fs_get (fs s) p) as [x|] eqn:Gp.
+  - destruct H as [_ (a & rest & A & [OK1 OK2])]. exists a, rest, x. split; [exact A|]. rewrite F. split; [exact Gp|].
+    assert (ND : nodd p).
+    { apply gpath_nodd. apply gpath_app; [apply lookup_node_get in L; exact (g_hok s G h d L)|apply vname_gcomp; exact V]. }
+    split; [apply (be_stat_present (fs s) (g_wf s G) (g_nl s G) p x false ND Gp)|].
+    unfold pk in OK1. rewrite Gp in OK1. cbn in OK1. injection OK1 as E1 E2 E3. cbn. rewrite <- E1, <- E2, <- E3. auto.
+  - destruct H as [e [_ H]]. rewrite H in ST. exfalso. exact (map_error_nonzero e ST).
+Qed.
+
+Hypothesis RO : ro (conf s) = false.
+Hypothesis KD : kd (fs s) d = true.
+
+Lemma posix_d_present : exists o, fs_get (fs s) d = Some o.
+Proof. apply kd_true in KD. destruct KD as [o [A _]]. exists o. exact A. Qed.
+Lemma posix_nodd : nodd p.
+Proof. apply gpath_nodd. apply gpath_app; [apply lookup_node_get in L; exact (g_hok s G h d L)|apply vname_gcomp; exact V]. Qed.
+
+(* MKDIR succeeds iff the name is absent; then the tree is be_mkdir's (then be_chown's); else it is unchanged *)
+Theorem posix_mkdir sa : validate_mode (match s_mode sa with Some m => m | None => 493 end) = st_ok ->
+  let so := step s c (RMkdir h n sa) in
+  let mode := match s_mode sa with Some m => m | None => 493 end in
+  (ob_status (snd so) = 0 <-> fs_get (fs s) p = None) /\
+  (ob_status (snd so) = 0 ->
+     fst (be_mkdir (fs s) p mode (now s)) = fs_add (fs s) p (mk_dir (N.land mode 511) (now s)) (now s) /\
+     exists u g, fs (fst so) = fst (be_chown (fst (be_mkdir (fs s) p mode (now s))) p u g)) /\
+  (ob_status (snd so) <> 0 -> fs (fst so) = fs s).
+Proof.
+  intros VM. cbv zeta. unfold step. cbn [garbage_reply]. rewrite (vname_str_ok n V).
+  destruct posix_d_present as [o Go].
+  assert (RO0 : ro (conf (clear_log s)) = false) by exact RO.
+  destruct (handle_mkdir_fwd (clear_log s) c h n sa d da o G0 RO0 V VM L K Go) as [_ H].
+  change (fs (clear_log s)) with (fs s) in *. change (now (clear_log s)) with (now s) in *. fold p in H.
+  destruct (be_mkdir_spec (fs s) (g_wf s G) (g_nl s G) p (match s_mode sa with Some m => m | None => 493 end) (now s) posix_nodd) as [e S].
+  unfold p in *. rewrite S in *. unfold creatable in *. rewrite parent_snoc, KD in *.
+  destruct (fs_get (fs s) (d ++ [n])) as [x|]; cbn [fst snd] in *.
+  - destruct H as [H1 H2]. rewrite H1. split; [split; [intros F0; exfalso; exact (map_error_nonzero e F0)|discriminate]|].
+    split; [intros F0; exfalso; exact (map_error_nonzero e F0)|intros _; exact H2].
+  - destruct H as (u & g & a & rest & H1 & H2 & _). split; [tauto|]. split; [|congruence].
+    intros _. split; [reflexivity|]. exists u, g. exact H2.
+Qed.
+
+(* REMOVE succeeds iff the name is present and not a non-empty directory; then the tree is be_remove's *)
+Theorem posix_remove : sanitize_ok d n = true -> let so := step s c (RRemove h n) in
+  (ob_status (snd so) = 0 <-> removable (fs s) p = true) /\
+  (ob_status (snd so) = 0 -> fs (fst so) = fs_rm (fs s) p (now s)) /\
+  (ob_status (snd so) <> 0 -> fs (fst so) = fs s).
+Proof.
+  intros SAN. cbv zeta. unfold step. cbn [garbage_reply]. rewrite (vname_str_ok n V).
+  destruct posix_d_present as [o Go].
+  assert (RO0 : ro (conf (clear_log s)) = false) by exact RO.
+  destruct (handle_remove_fwd (clear_log s) h n d da G0 V L K o RO0 Go SAN) as [_ H].
+  change (fs (clear_log s)) with (fs s) in *. change (now (clear_log s)) with (now s) in *. fold p in H.
+  destruct (be_remove_spec (fs s) (g_wf s G) (g_nl s G) p (now s) posix_nodd) as [e S]. rewrite S in *.
+  destruct (removable (fs s) p); cbn [fst snd] in *.
+  - destruct H as [H1 H2]. split; [tauto|]. split; [intros _; exact H2|congruence].
+  - destruct H as [H1 H2]. rewrite H1. split; [split; [intros F0; exfalso; exact (map_error_nonzero e F0)|discriminate]|].
+    split; [intros F0; exfalso; exact (map_error_nonzero e F0)|intros _; exact H2].
+Qed.
+
+(* RMDIR succeeds iff the name is present, a directory, and empty *)
+Theorem posix_rmdir : let so := step s c (RRmdir h n) in
+  (ob_status (snd so) = 0 <-> exists x, fs_get (fs s) p = Some x /\ o_kind x = KDir /\ has_children (fs s) p = false) /\
+  (ob_status (snd so) = 0 -> fs (fst so) = fs_rm (fs s) p (now s)) /\
+  (ob_status (snd so) <> 0 -> fs (fst so) = fs s).
+Proof.
+  cbv zeta. unfold step. cbn [garbage_reply]. rewrite (vname_str_ok n V).
+  destruct posix_d_present as [o Go].
+  assert (RO0 : ro (conf (clear_log s)) = false) by exact RO.
+  destruct (handle_rmdir_fwd (clear_log s) h n d da G0 V L K o RO0 Go) as [_ H].
+  change (fs (clear_log s)) with (fs s) in *. change (now (clear_log s)) with (now s) in *. fold p in H.
+  assert (NZ1 : NFSERR_NOENT <> 0) by (vm_compute; discriminate). assert (NZ2 : NFSERR_NOTDIR <> 0) by (vm_compute; discriminate).
+  destruct (fs_get (fs s) p) as [x|] eqn:Gp.
+  2:{ destruct H as [H1 H2]. rewrite H1. split; [split; [intros F0; exfalso; exact (NZ1 F0)|intros [x [F0 _]]; discriminate]|].
+      split; [intros F0; exfalso; exact (NZ1 F0)|intros _; exact H2]. }
+  destruct (negb (kind_eqb (o_kind x) KDir)) eqn:KX.
+  { destruct H as [H1 H2]. rewrite H1. apply negb_true_iff in KX.
+    split; [split; [intros F0; exfalso; exact (NZ2 F0)|intros [x' [[= <-] [F1 _]]]; rewrite F1 in KX; discriminate]|].
+    split; [intros F0; exfalso; exact (NZ2 F0)|intros _; exact H2]. }
+  apply negb_false_iff in KX.
+  destruct (be_remove_spec (fs s) (g_wf s G) (g_nl s G) p (now s) posix_nodd) as [e S]. rewrite S in *.
+  unfold removable in *. rewrite Gp, KX in *. unfold p in *.
+  assert (NN : nilb (d ++ [n]) = false) by (destruct d; reflexivity).
+  replace (match d ++ [n] with [] => true | _ :: _ => false end) with false in * by (destruct d; reflexivity).
+  cbn [negb andb] in *. apply kind_eqb_eq in KX.
+  destruct (has_children (fs s) (d ++ [n])); cbn [negb fst snd] in *.
+  - destruct H as [H1 H2]. split; [split; [intros F0; exfalso; exact (H1 F0)|intros [x' [_ [_ F0]]]; discriminate]|].
+    split; [intros F0; exfalso; exact (H1 F0)|intros _; exact H2].
+  - destruct H as [H1 H2]. split; [split; [intros _; exists x; auto|intros _; exact H1]|]. split; [intros _; exact H2|congruence].
+Qed.
+
+(* CREATE: GUARDED (how = 1) succeeds iff the name is absent; UNCHECKED (how = 0) iff it is absent or a regular
+   file (and, when a size below 2^63 is requested for an existing file, the size passes the MaxFileSize policy) *)
+Theorem posix_create how sa :
+  validate_mode (if (how =? 0) || (how =? 1) then match s_mode sa with Some m => m | None => 420 end else 420) = st_ok ->
+  sanitize_ok d n = true ->
+  let so := step s c (RCreate h n how sa) in
+  (how = 1 -> (ob_status (snd so) = 0 <-> fs_get (fs s) p = None)) /\
+  (how = 0 -> (ob_status (snd so) = 0 <->
+               match fs_get (fs s) p with
+               | None => True
+               | Some x => o_kind x = KFile /\
+                           match s_size sa with
+                           | Some sz => two63N <=? sz = true \/ (0 <? maxfile (conf s)) && (maxfile (conf s) <? sz) = false
+                           | None => True end
+               end)) /\
+  (ob_status (snd so) <> 0 -> fs (fst so) = fs s) /\
+  (ob_status (snd so) = 0 -> fs_get (fs s) p = None ->
+     fst (be_create (fs s) p (now s)) = fs_add (fs s) p (mk_file 438 (now s)) (now s) /\
+     exists m u g, fs (fst so) = fst (be_chown (fst (be_chmod (fst (be_create (fs s) p (now s))) p m)) p u g)).
+Proof.
+  intros VM SAN. cbv zeta. unfold step. cbn [garbage_reply]. rewrite (vname_str_ok n V).
+  destruct posix_d_present as [o Go].
+  assert (RO0 : ro (conf (clear_log s)) = false) by exact RO.
+  destruct (handle_create_fwd (clear_log s) c h n how sa d da o G0 RO0 V VM L K Go) as [_ H].
+  change (fs (clear_log s)) with (fs s) in *. change (now (clear_log s)) with (now s) in *. change (conf (clear_log s)) with (conf s) in *.
+  fold p in H. rewrite SAN in H.
+  assert (NZ1 : NFSERR_EXIST <> 0) by (vm_compute; discriminate). assert (NZ2 : NFSERR_FBIG <> 0) by (vm_compute; discriminate).
+  destruct (be_create_spec (fs s) (g_wf s G) (g_nl s G) p (now s) posix_nodd) as [e S].
+  unfold p in *. rewrite S in *. rewrite parent_snoc, KD in *.
+  destruct (fs_get (fs s) (d ++ [n])) as [x|] eqn:Gp; cbn [fst snd] in *.
+  - split; [|split; [|split]].
+    + intros ->. cbn [N.eqb orb] in H. change (1 =? 2) with false in H. change (1 =? 1) with true in H. cbn [orb] in H.
+      destruct H as [H1 _]. rewrite H1. split; [intros F0; exfalso; exact (NZ1 F0)|discriminate].
+    + intros ->. change (0 =? 2) with false in H. change (0 =? 1) with false in H. change (0 =? 0) with true in H. cbn [orb] in H.
+      destruct (negb (kind_eqb (o_kind x) KFile)) eqn:KF.
+      * destruct H as [H1 _]. rewrite H1. apply negb_true_iff in KF.
+        split; [intros F0; exfalso; exact (NZ1 F0)|intros [F0 _]; rewrite F0 in KF; discriminate].
+      * apply negb_false_iff, kind_eqb_eq in KF. destruct (s_size sa) as [sz|].
+        -- destruct (two63N <=? sz); [split; [auto|intros _; apply H]|].
+           destruct ((0 <? maxfile (conf s)) && (maxfile (conf s) <? sz)).
+           ++ destruct H as [H1 _]. rewrite H1. split; [intros F0; exfalso; exact (NZ2 F0)|intros [_ [F0|F0]]; discriminate].
+           ++ split; [auto|intros _; apply H].
+        -- split; [auto|intros _; apply H].
+    + destruct (how =? 2); [intros N0; exfalso; apply N0, H|].
+      destruct ((how =? 1) || negb (kind_eqb (o_kind x) KFile)); [intros _; apply H|].
+      destruct (if (how =? 0) || (how =? 1) then s_size sa else None) as [sz|]; [|intros N0; exfalso; apply N0, H].
+      destruct (two63N <=? sz); [intros N0; exfalso; apply N0, H|].
+      destruct ((0 <? maxfile (conf s)) && (maxfile (conf s) <? sz)); [intros _; apply H|intros N0; exfalso; apply N0, H].
+    + intros _ F0. discriminate.
+  - destruct H as (H1 & _ & H3). split; [intros _; tauto|]. split; [intros _; tauto|]. split; [congruence|].
+    intros _ _. split; [reflexivity|]. eexists _, _, _. exact H3.
+Qed.
+End Posix.
+
+(* RENAME succeeds iff be_rename's rules allow it; then the tree is be_rename's *)
+Theorem posix_rename s c h1 n1 h2 n2 d1 d2 da1 da2 : Good s -> ro (conf s) = false -> vname n1 -> vname n2 ->
+  lookup_node s h1 = Some (d1, da1) -> lookup_node s h2 = Some (d2, da2) -> na_kind da1 = KDir -> na_kind da2 = KDir ->
+  kd (fs s) d1 = true -> kd (fs s) d2 = true -> sanitize_ok d1 n1 = true -> sanitize_ok d2 n2 = true ->
+  let so := step s c (RRename h1 n1 h2 n2) in let op := d1 ++ [n1] in let np := d2 ++ [n2] in
+  (ob_status (snd so) = 0 <-> rename_ok (fs s) op np = true) /\
+  (ob_status (snd so) = 0 -> fs (fst so) = if path_eqb op np then fs s else renamed (fs s) op np (now s)) /\
+  (ob_status (snd so) <> 0 -> fs (fst so) = fs s).
+Proof.
+  intros G RO V1 V2 L1 L2 K1 K2 KD1 KD2 S1 S2. cbv zeta. unfold step. cbn [garbage_reply].
+  rewrite (vname_str_ok n1 V1), (vname_str_ok n2 V2). cbn [andb].
+  apply kd_true in KD1, KD2. destruct KD1 as [o1 [Go1 _]]. destruct KD2 as [o2 [Go2 _]].
+  pose proof (Good_clear s G) as G0.
+  destruct (handle_rename_fwd (clear_log s) h1 h2 n1 n2 d1 d2 da1 da2 o1 o2 G0 RO V1 V2 L1 L2 K1 K2 Go1 Go2 S1 S2) as [_ H].
+  change (fs (clear_log s)) with (fs s) in *. change (now (clear_log s)) with (now s) in *.
+  assert (NP1 : nodd (d1 ++ [n1])).
+  { apply gpath_nodd. apply gpath_app; [apply lookup_node_get in L1; exact (g_hok s G h1 d1 L1)|apply vname_gcomp; exact V1]. }
+  assert (NP2 : nodd (d2 ++ [n2])).
+  { apply gpath_nodd. apply gpath_app; [apply lookup_node_get in L2; exact (g_hok s G h2 d2 L2)|apply vname_gcomp; exact V2]. }
+  destruct (be_rename_spec (fs s) (d1 ++ [n1]) (d2 ++ [n2]) (now s) (g_wf s G) (g_nl s G) NP1 NP2) as [e S]. rewrite S in *.
+  destruct (rename_ok (fs s) (d1 ++ [n1]) (d2 ++ [n2])); cbn [fst snd] in *.
+  - destruct H as [H1 H2]. split; [tauto|]. split; [intros _; exact H2|congruence].
+  - destruct H as [H1 H2]. rewrite H1. split; [split; [intros F0; exfalso; exact (map_error_nonzero e F0)|discriminate]|].
+    split; [intros F0; exfalso; exact (map_error_nonzero e F0)|intros _; exact H2].
+Qed.
+
+(* ---------- the C04 corollary: the object block of LOOKUP / MKDIR / CREATE replies ---------- *)
+Definition block_ok (f : fsmap) (p : path) (fa : fattr) : Prop :=
+  exists x, fs_get f p = Some x /\ be_stat f p false = Ok (info_of x) /\
+            fa_type fa = ftype_of (o_kind x) /\ fa_fileid fa = fileid_of p /\ fa_size fa = stat_size x /\ fa_perm fa = o_perm x.
+Lemma attr_ok_block f p a : WF f -> nolinks f -> nodd p -> attr_ok f p a -> block_ok f p (fattr_of a).
+Proof.
+  intros W NL ND [OK1 OK2]. destruct (pk_some_get f p _ OK1) as [x [Gp E]]. exists x. split; [exact Gp|].
+  split; [apply (be_stat_present f W NL p x false ND Gp)|]. unfold pko in E. injection E as E1 E2 E3. cbn. rewrite <- E1, <- E2, <- E3. auto.
+Qed.
+
+Theorem mkdir_block s c h n sa d da : Good s -> vname n -> lookup_node s h = Some (d, da) -> na_kind da = KDir ->
+  ro (conf s) = false -> kd (fs s) d = true -> validate_mode (match s_mode sa with Some m => m | None => 493 end) = st_ok ->
+  let so := step s c (RMkdir h n sa) in
+  ob_status (snd so) = 0 -> exists a rest, ob_attrs (snd so) = Some (fattr_of a) :: rest /\ block_ok (fs (fst so)) (d ++ [n]) (fattr_of a).
+Proof.
+  intros G V L K RO KD VM. cbv zeta. unfold step. cbn [garbage_reply]. rewrite (vname_str_ok n V). intros ST.
+  apply kd_true in KD. destruct KD as [o [Go _]]. pose proof (Good_clear s G) as G0.
+  destruct (handle_mkdir_fwd (clear_log s) c h n sa d da o G0 RO V VM L K Go) as [G1 H].
+  destruct (snd (be_mkdir _ _ _ _)) as [[]|e].
+  - destruct H as (u & g & a & rest & _ & _ & A & OK). exists a, rest. split; [exact A|].
+    apply attr_ok_block; [exact (g_wf _ G1)|exact (g_nl _ G1)| |exact OK].
+    apply gpath_nodd. apply gpath_app; [apply lookup_node_get in L; exact (g_hok s G h d L)|apply vname_gcomp; exact V].
+  - destruct H as [H _]. rewrite H in ST. exfalso. exact (map_error_nonzero e ST).
+Qed.
+Theorem create_block s c h n how sa d da : Good s -> vname n -> lookup_node s h = Some (d, da) -> na_kind da = KDir ->
+  ro (conf s) = false -> kd (fs s) d = true ->
+  validate_mode (if (how =? 0) || (how =? 1) then match s_mode sa with Some m => m | None => 420 end else 420) = st_ok ->
+  let so := step s c (RCreate h n how sa) in
+  ob_status (snd so) = 0 -> exists a rest, ob_attrs (snd so) = Some (fattr_of a) :: rest /\ block_ok (fs (fst so)) (d ++ [n]) (fattr_of a).
+Proof.
+  intros G V L K RO KD VM. cbv zeta. unfold step. cbn [garbage_reply]. rewrite (vname_str_ok n V). intros ST.
+  apply kd_true in KD. destruct KD as [o [Go _]]. pose proof (Good_clear s G) as G0.
+  destruct (handle_create_fwd (clear_log s) c h n how sa d da o G0 RO V VM L K Go) as [G1 H].
+  assert (ND : nodd (d ++ [n])).
+  { apply gpath_nodd. apply gpath_app; [apply lookup_node_get in L; exact (g_hok s G h d L)|apply vname_gcomp; exact V]. }
+  assert (X : create_ok_block (clear_log s) c h n how sa d ->
+              exists a rest, ob_attrs (snd (handle_create (clear_log s) c h n how sa)) = Some (fattr_of a) :: rest /\
+                             block_ok (fs (fst (handle_create (clear_log s) c h n how sa))) (d ++ [n]) (fattr_of a)).
+  { intros (a & rest & A & OK). exists a, rest. split; [exact A|]. apply attr_ok_block; [exact (g_wf _ G1)|exact (g_nl _ G1)|exact ND|exact OK]. }
+  assert (NZ1 : NFSERR_EXIST <> 0) by (vm_compute; discriminate). assert (NZ2 : NFSERR_FBIG <> 0) by (vm_compute; discriminate).
+  destruct (fs_get (fs (clear_log s)) (d ++ [n])) as [x|].
+  - destruct (how =? 2); [apply X, H|].
+    destruct ((how =? 1) || negb (kind_eqb (o_kind x) KFile)); [destruct H as [H _]; rewrite H in ST; exfalso; exact (NZ1 ST)|].
+    destruct (if (how =? 0) || (how =? 1) then s_size sa else None) as [sz|]; [|apply X, H].
+    destruct (two63N <=? sz); [apply X, H|].
+    destruct ((0 <? maxfile (conf (clear_log s))) && (maxfile (conf (clear_log s)) <? sz)); [destruct H as [H _]; rewrite H in ST; exfalso; exact (NZ2 ST)|apply X, H].
+  - destruct (sanitize_ok d n); [|destruct H as [H _]; rewrite H in ST; exfalso; exact (map_error_nonzero _ ST)].
+    destruct (snd (be_create _ _ _)); [apply X, H|destruct H as [H _]; rewrite H in ST; exfalso; exact (map_error_nonzero _ ST)].
+Qed.
+
+(* ====================================================================================================== *)
+(* 12. reachable states, concrete histories, and the necessity of the side condition                      *)
+(* ====================================================================================================== *)
+Lemma Good_hfinal : forall l s, Good s -> c02_hist l -> Good (hfinal s l).
+Proof.
+  induction l as [|x r IH]; intros s G HL; [exact G|]. inversion HL as [|? ? OK HL']; subst. cbn [hfinal fold_left].
+  apply IH; [|exact HL'].
+  assert (HS : SIM s s) by (split; [apply sim_refl|split; exact G]).
+  destruct (hrun1_rel s s x HS OK) as [(_ & B & _) _]. exact B.
+Qed.
+Definition c02_hist_b (l : list hstep) : bool := forallb (fun x => c02_req (hs_req x)) l.
+Lemma c02_hist_b_spec l : c02_hist_b l = true -> c02_hist l.
+Proof. intros H. apply Forall_forall. intros x Hx. exact (proj1 (forallb_forall _ _) H x Hx). Qed.
+
+(* the statement WITHOUT the side condition: SYMLINK allowed (NOT provable: refuted below) *)
+Definition transparent_unrestricted_statement : Prop :=
+  forall cfg_ mx t0 l,
+    (forall x, In x l -> match hs_req x with RSetattr _ _ _ | RWrite _ _ _ _ _ => False | _ => True end) ->
+    let s := srv_init_fs fs_init cfg_ mx t0 in Forall2 same_step (hrun s l) (hrun_ref s l).
+
+Definition ex_cfg2 : cfg :=
+  {| tsize := 65536; ro := false; maxfile := 0; attr_ttl := 5000; attr_cap := 100; neg_on := true; neg_ttl := 5000;
+     dir_on := true; dir_ttl := 5000; dir_cap := 10; dir_maxsize := 100 |}.
+Definition ex_cred2 : cred := {| c_uid := 0; c_gid := 0; c_aux := [] |}.
+Definition ex_sattr2 : sattr :=
+  {| s_mode := Some 493; s_uid := None; s_gid := None; s_size := None; s_atime := 0; s_atime_v := 0; s_mtime := 0; s_mtime_v := 0 |}.
+Definition ex_steps (rs : list req) : list hstep := map (fun r => {| hs_adv := 1; hs_cred := ex_cred2; hs_req := r |}) rs.
+Definition ex_init : srv := srv_init_fs fs_init ex_cfg2 0 100.
+
+(* why [nolinks] is needed even though MNT refuses paths through a symbolic link: a STALE handle's path can come to
+   pass through a link.  MNT "/" (h1); MKDIR e (h2); MKDIR e/s (h3); MKDIR d (h4); MKDIR d/s (h5); RMDIR d/s; RMDIR d;
+   SYMLINK d -> "e"; LOOKUP h5 "a" (NOENT, resolved through the link, cached under [d;s;a]); CREATE h3 "a" (invalidates
+   [e;s;a] only); LOOKUP h5 "a": cached run NOENT, cache-free run OK. *)
+Definition alias_hist : list hstep :=
+  ex_steps [RMnt [47]; RMkdir 1 [101] ex_sattr2; RMkdir 2 [115] ex_sattr2; RMkdir 1 [100] ex_sattr2; RMkdir 4 [115] ex_sattr2;
+            RRmdir 4 [115]; RRmdir 1 [100]; RSymlink 1 [100] ex_sattr2 [101];
+            RLookup 5 [97]; RCreate 3 [97] 0 ex_sattr2; RLookup 5 [97]].
+Lemma Forall2_nth_status (l l' : list (srv * obs)) k :
+  Forall2 same_step l l' -> ob_status (snd (nth k l (ex_init, ob_fail 0))) = ob_status (snd (nth k l' (ex_init, ob_fail 0))).
+Proof.
+  intros H. revert k. induction H as [|a b r r' [HP _] _ IH]; intros k; [reflexivity|].
+  destruct k as [|k]; cbn [nth]; [|apply IH]. unfold proj in HP. congruence.
+Qed.
+Theorem transparent_unrestricted_refuted : ~ transparent_unrestricted_statement.
+Proof.
+  intros H. specialize (H ex_cfg2 0%Z 100 alias_hist).
+  assert (A : forall x, In x alias_hist -> match hs_req x with RSetattr _ _ _ | RWrite _ _ _ _ _ => False | _ => True end).
+  { intros x Hx. unfold alias_hist, ex_steps in Hx. apply in_map_iff in Hx. destruct Hx as [r [<- Hr]]. cbn [hs_req].
+    cbn in Hr. repeat (destruct Hr as [<-|Hr]; [exact I|]). destruct Hr. }
+  specialize (H A). cbv zeta in H. apply (Forall2_nth_status _ _ 10) in H. vm_compute in H. discriminate H.
+Qed.
+
+(* a concrete Good state with warm caches: MNT "/", MKDIR d, CREATE d/f, LOOKUP d/nope (negative entry),
+   READDIR d (cached listing), GETATTR d/f *)
+Definition warm_hist : list hstep :=
+  ex_steps [RMnt [47]; RMkdir 1 [100] ex_sattr2; RCreate 2 [102] 0 ex_sattr2; RLookup 2 [110; 111; 112; 101];
+            RReaddir 2 0 4096; RGetattr 3].
+Definition warm_state : srv := hfinal ex_init warm_hist.
+Lemma Good_ex_init : Good ex_init.
+Proof. apply Good_init; [apply WF_init|apply nolinks_init]. Qed.
+Lemma warm_state_good : Good warm_state.
+Proof. apply Good_hfinal; [exact Good_ex_init|apply c02_hist_b_spec; vm_compute; reflexivity]. Qed.
+Lemma warm_state_warm :
+  existsb (fun e => match ac_attrs e with None => true | Some _ => false end) (ac warm_state) = true /\
+  existsb (fun e => match ac_attrs e with None => false | Some _ => true end) (ac warm_state) = true /\
+  map dc_path (dc warm_state) = [[[100]]] /\ map dc_names (dc warm_state) = [[[102]]].
+Proof. vm_compute. auto. Qed.
+
+(* the two histories that exposed stale negative entries before REMOVE/RMDIR/CREATE/MKDIR were given tree
+   invalidations: now both runs agree (also a consequence of transparent_hist) *)
+Definition neg_hist1 : list hstep :=
+  ex_steps [RMnt [47]; RMkdir 1 [97] ex_sattr2; RMkdir 2 [98] ex_sattr2; RLookup 3 [99]; RRmdir 2 [98]; RRmdir 1 [97];
+            RCreate 1 [97] 0 ex_sattr2; RLookup 3 [99]].
+Definition neg_hist2 : list hstep :=
+  ex_steps [RMnt [47]; RMkdir 1 [97] ex_sattr2; RMkdir 2 [98] ex_sattr2; RLookup 3 [99]; RRmdir 2 [98]; RRmdir 1 [97];
+            RLookup 3 [99]; RCreate 1 [97] 0 ex_sattr2; RLookup 3 [99]].
+Definition statuses_of (l : list (srv * obs)) : list N := map (fun so => ob_status (snd so)) l.
+Lemma neg_hists_agree :
+  map (fun so => proj (snd so)) (hrun ex_init neg_hist1) = map (fun so => proj (snd so)) (hrun_ref ex_init neg_hist1) /\
+  map (fun so => proj (snd so)) (hrun ex_init neg_hist2) = map (fun so => proj (snd so)) (hrun_ref ex_init neg_hist2) /\
+  statuses_of (hrun ex_init neg_hist2) = [0; 0; 0; 2; 0; 0; 2; 0; 20].
+Proof. vm_compute. auto. Qed.
